@@ -8,2394 +8,21 @@ Proof style: unfold both sides, normalise the primitive layer (`Go.*` are one-li
 primitives) and the `Except` monad, then case-split (`split`) and close with `simp`/`omega`/`grind`, so that a
 semantically equivalent rewrite of the Go function re-proves by itself.
 -/
-import RosedVerif.Gen.Code
-import RosedVerif.Model.PosLemmas
-import RosedVerif.Model.OptionsLemmas
-import RosedVerif.Model.StringsLemmas
-import RosedVerif.Model.LinesLemmas
-set_option linter.unusedVariables false
-set_option linter.unusedSectionVars false
-set_option linter.unusedSimpArgs false
-namespace RosedVerif.GenCodeEq
-open RosedVerif
-
-variable {α : Type} [DecidableEq α] (cx : Ctx α)
-
-theorem natCast_le_zero {β : Type} (l : List β) : ((l.length : Int) ≤ 0) ↔ l = [] := by
-  cases l <;> simp <;> omega
-theorem natCast_lt_one {β : Type} (l : List β) : ((l.length : Int) < 1) ↔ l = [] := by
-  cases l <;> simp <;> omega
-theorem zero_lt_natCast {β : Type} (l : List β) : (0 < (l.length : Int)) ↔ l ≠ [] := by
-  cases l <;> simp <;> omega
-theorem natCast_eq_zero {β : Type} (l : List β) : ((l.length : Int) = 0) ↔ l = [] := by
-  cases l <;> simp <;> omega
-
-/-- normalisation of the primitive layer and of the `Except` monad -/
-macro "go_norm" : tactic => `(tactic|
-  try simp only [natCast_le_zero, natCast_lt_one, zero_lt_natCast, natCast_eq_zero, List.isEmpty_iff,Go.gsLen, Go.gsSub, Go.gsAdd, Go.gsIsEmpty, Go.gsIndexFunc, Go.gsLastIndexFunc, Go.gsEqual,
-    Go.gemRepeatStr, Go.stringsSplit, Go.stringsJoin, Go.stringsReplaceAll, Go.stringsHasSuffix,
-    Go.stringsHasPrefix, Go.stringsCount, Go.stringsToUpper, Go.unicodeIsSpace, Go.isSpaceHead,
-    Go.collapseSpaceRuns, Go.sliceLen, Go.strLen, Go.strSplice, Go.strSlice, Go.gsCharAt, Go.gsSetCharAt,
-    Go.stringsRepeat, Go.edCache,
-    pure_bind, bind_assoc, Bool.not_not, Bool.not_eq_true', decide_eq_true_eq,
-    Bool.decide_eq_true, Bool.not_eq_true])
-
-/-- split every `if`/`match`, then close each case -/
-macro "go_close" : tactic => `(tactic|
-  ((repeat' split) <;> (first | rfl | (simp_all; done) | grind [List.isEmpty_iff])))
-
-theorem ite_pure {γ : Type} (c : Prop) [Decidable c] (a b : γ) :
-    (if c then (pure a : R γ) else pure b) = pure (if c then a else b) := by split <;> rfl
-
-theorem ite_pure_bind {γ δ : Type} (c : Prop) [Decidable c] (a b : γ) (f : γ → R δ) :
-    ((if c then (pure a : R γ) else pure b) >>= f) = f (if c then a else b) := by split <;> rfl
-
-theorem countLeadingWhitespace_regenerated (h : Gen.Code.countLeadingWhitespace_extracted = true) (text : List α) :
-    Gen.Code.countLeadingWhitespace cx text = pure (countLeadingWs cx text) := by
-  first
-    | exact absurd h (by decide)
-    | (unfold Gen.Code.countLeadingWhitespace countLeadingWs
-       go_norm
-       split <;> simp_all)
-
-theorem countTrailingWhitespace_regenerated (h : Gen.Code.countTrailingWhitespace_extracted = true) (text : List α) :
-    Gen.Code.countTrailingWhitespace cx text = pure (countTrailingWs cx text) := by
-  first
-    | exact absurd h (by decide)
-    | (unfold Gen.Code.countTrailingWhitespace countTrailingWs
-       go_norm)
-
-theorem alignLineLeft_regenerated (h : Gen.Code.alignLineLeft_extracted = true) (text : List α) (width : Int) :
-    Gen.Code.alignLineLeft cx text width = pure (alignLeft cx text width) := by
-  first
-    | exact absurd h (by decide)
-    | (unfold Gen.Code.alignLineLeft alignLeft
-       rw [countLeadingWhitespace_regenerated cx (by decide)]
-       go_norm
-       repeat' split
-       all_goals (first | rfl | (simp_all; done) | grind))
-
-theorem alignLineRight_regenerated (h : Gen.Code.alignLineRight_extracted = true) (text : List α) (width : Int) :
-    Gen.Code.alignLineRight cx text width = pure (alignRight cx text width) := by
-  first
-    | exact absurd h (by decide)
-    | (unfold Gen.Code.alignLineRight alignRight
-       rw [countTrailingWhitespace_regenerated cx (by decide)]
-       go_norm
-       go_close)
-
-theorem alignLineCenter_regenerated (h : Gen.Code.alignLineCenter_extracted = true) (text : List α) (width : Int) :
-    Gen.Code.alignLineCenter cx text width = pure (alignCenter cx text width) := by
-  first
-    | exact absurd h (by decide)
-    | (unfold Gen.Code.alignLineCenter alignCenter
-       rw [countLeadingWhitespace_regenerated cx (by decide), countTrailingWhitespace_regenerated cx (by decide)]
-       go_norm
-       go_close)
-
-theorem parseTableCharSet_regenerated (h : Gen.Code.parseTableCharSet_extracted = true) (charSet : List α) :
-    Gen.Code.parseTableCharSet cx charSet = pure (parseTableCharSet cx charSet) := by
-  first
-    | exact absurd h (by decide)
-    | (unfold Gen.Code.parseTableCharSet parseTableCharSet
-       go_norm
-       go_close)
-
-theorem optionsWithDefaults_regenerated (h : Gen.Code.optionsWithDefaults_extracted = true) (o : Options α) :
-    Gen.Code.optionsWithDefaults cx o = pure (o.withDefaults cx) := by
-  first
-    | exact absurd h (by decide)
-    | (unfold Gen.Code.optionsWithDefaults Options.withDefaults
-       go_norm
-       go_close)
-
-/-! ### tb.Block -/
-
-theorem blockLen_regenerated (h : Gen.Code.blockLen_extracted = true) (b : Block α) :
-    Gen.Code.blockLen cx b = pure (b.lines.length : Int) := by
-  first
-    | exact absurd h (by decide)
-    | (unfold Gen.Code.blockLen
-       go_norm)
-
-theorem blockLine_regenerated (h : Gen.Code.blockLine_extracted = true) (b : Block α) (pos : Int) :
-    Gen.Code.blockLine cx b pos = b.line pos := by
-  first
-    | exact absurd h (by decide)
-    | (unfold Gen.Code.blockLine Block.line Go.idx
-       go_norm
-       go_close)
-
-theorem blockCharCount_regenerated (h : Gen.Code.blockCharCount_extracted = true) (b : Block α) (pos : Int) :
-    Gen.Code.blockCharCount cx b pos = (do let l ← b.line pos; pure (gLen cx l : Int)) := by
-  first
-    | exact absurd h (by decide)
-    | (unfold Gen.Code.blockCharCount
-       rw [blockLine_regenerated cx (by decide)]
-       go_norm)
-
-theorem blockSet_regenerated (h : Gen.Code.blockSet_extracted = true) (b : Block α) (pos : Int) (content : List α) :
-    Gen.Code.blockSet cx b pos content = b.set pos content := by
-  first
-    | exact absurd h (by decide)
-    | (unfold Gen.Code.blockSet Block.set Go.sliceSet
-       go_norm
-       go_close)
-
-theorem blockAppend_regenerated (h : Gen.Code.blockAppend_extracted = true) (b : Block α) (content : List α) :
-    Gen.Code.blockAppend cx b content = pure (b.append content) := by
-  first
-    | exact absurd h (by decide)
-    | (unfold Gen.Code.blockAppend Block.append
-       go_norm
-       go_close)
-
-theorem blockJoin_regenerated (h : Gen.Code.blockJoin_extracted = true) (b : Block α) :
-    Gen.Code.blockJoin cx b = pure b.join := by
-  first
-    | exact absurd h (by decide)
-    | (unfold Gen.Code.blockJoin Block.join
-       rw [blockLen_regenerated cx (by decide)]
-       go_norm
-       go_close)
-
-/-! ### Editor -/
-
-theorem edit_regenerated (h : Gen.Code.edit_extracted = true) (t : List α) :
-    Gen.Code.edit cx t = pure (Editor.root t {}) := by
-  first
-    | exact absurd h (by decide)
-    | rfl
-
-theorem editorIsSubEditor_regenerated (h : Gen.Code.editorIsSubEditor_extracted = true) (ed : Editor α) :
-    Gen.Code.editorIsSubEditor cx ed = pure ed.isSub := by
-  first
-    | exact absurd h (by decide)
-    | (unfold Gen.Code.editorIsSubEditor
-       cases ed <;> rfl)
-
-theorem editorWithOptions_regenerated (h : Gen.Code.editorWithOptions_extracted = true) (ed : Editor α) (o : Options α) :
-    Gen.Code.editorWithOptions cx ed o = pure (ed.withOpts o) := by
-  first
-    | exact absurd h (by decide)
-    | rfl
-
-theorem editorCharCount_regenerated (h : Gen.Code.editorCharCount_extracted = true) (ed : Editor α) :
-    Gen.Code.editorCharCount cx ed = pure (ed.charCount cx : Int) := by
-  first
-    | exact absurd h (by decide)
-    | (unfold Gen.Code.editorCharCount Editor.charCount
-       go_norm
-       simp [Go.deref])
-
-theorem idx_nat {β : Type} (l : List β) (k : Nat) (hk : k < l.length) : Go.idx l (k : Int) = pure l[k] := by
-  unfold Go.idx
-  rw [dif_pos (by omega)]
-  simp
-
-/-! ### Editor.Chars -/
-
-/-- the byte-offset search loop of `Chars` (state: chIdx, byteStart, byteEnd); `L = len(ed.Text)` -/
-def chBody {ρ : Type} (rs re L : Int) (_i : Int) (byteIdx : Int) (s : Int × Int × Int) : R ((Int × Int × Int) × Go.Ctl ρ) :=
-  if s.1 + 1 = rs then
-    (if re ≥ L then pure ((s.1 + 1, byteIdx, s.2.2), Go.Ctl.brk)
-     else if s.1 + 1 = re then pure ((s.1 + 1, byteIdx, byteIdx), Go.Ctl.brk)
-     else pure ((s.1 + 1, byteIdx, s.2.2), Go.Ctl.next))
-  else if s.1 + 1 = re then pure ((s.1 + 1, s.2.1, byteIdx), Go.Ctl.brk)
-  else pure ((s.1 + 1, s.2.1, s.2.2), Go.Ctl.next)
-
-/-- after the start was found: run on to the end position -/
-theorem ch_loop_B2 {ρ : Type} (f : Nat → Int) (rs re : Nat) (L : Int) (hL : ¬ ((re : Int) ≥ L)) :
-    ∀ (m k : Nat) (i bs be : Int), k ≤ re → re < k + m → rs < k →
-      Go.forRangeCtlAux (ρ := ρ) (chBody rs re L) i ((List.range' k m).map f) ((k : Int) - 1, bs, be) =
-        pure (((re : Int), bs, f re), none) := by
-  intro m
-  induction m with
-  | zero => intro k i bs be h1 h2 _; omega
-  | succ m ih =>
-    intro k i bs be h1 h2 h3
-    simp only [List.range'_succ, List.map_cons, Go.forRangeCtlAux, chBody]
-    have e1 : ((k : Int) - 1 + 1) = (k : Int) := by omega
-    have n1 : ¬ ((k : Int) = (rs : Int)) := by omega
-    simp only [e1, n1, if_false]
-    by_cases hk : k = re
-    · subst hk
-      simp
-    · have n2 : ¬ ((k : Int) = (re : Int)) := by omega
-      simp only [n2, if_false, pure_bind]
-      have := ih (k + 1) (i + 1) bs be (by omega) (by omega) (by omega)
-      simp only [Int.natCast_add, Int.cast_ofNat_Int, Int.add_sub_cancel] at this
-      exact this
-
-/-- an end position inside the text -/
-theorem ch_loop_B1 {ρ : Type} (f : Nat → Int) (rs re : Nat) (L : Int) (hL : ¬ ((re : Int) ≥ L)) :
-    ∀ (m k : Nat) (i bs be : Int), k ≤ rs → rs ≤ re → re < k + m →
-      Go.forRangeCtlAux (ρ := ρ) (chBody rs re L) i ((List.range' k m).map f) ((k : Int) - 1, bs, be) =
-        pure (((re : Int), f rs, f re), none) := by
-  intro m
-  induction m with
-  | zero => intro k i bs be h1 h2 h3; omega
-  | succ m ih =>
-    intro k i bs be h1 h2 h3
-    by_cases hk : k = rs
-    · subst hk
-      simp only [List.range'_succ, List.map_cons, Go.forRangeCtlAux, chBody]
-      have e1 : ((k : Int) - 1 + 1) = (k : Int) := by omega
-      simp only [e1, hL, if_true, if_false]
-      by_cases hk2 : k = re
-      · subst hk2; simp
-      · have n2 : ¬ ((k : Int) = (re : Int)) := by omega
-        simp only [n2, if_false, pure_bind]
-        have := ch_loop_B2 (ρ := ρ) f k re L hL m (k + 1) (i + 1) (f k) be (by omega) (by omega) (by omega)
-        simp only [Int.natCast_add, Int.cast_ofNat_Int, Int.add_sub_cancel] at this
-        exact this
-    · simp only [List.range'_succ, List.map_cons, Go.forRangeCtlAux, chBody]
-      have e1 : ((k : Int) - 1 + 1) = (k : Int) := by omega
-      have n1 : ¬ ((k : Int) = (rs : Int)) := by omega
-      have n2 : ¬ ((k : Int) = (re : Int)) := by omega
-      simp only [e1, n1, n2, if_false, pure_bind]
-      have := ih (k + 1) (i + 1) bs be (by omega) h2 (by omega)
-      simp only [Int.natCast_add, Int.cast_ofNat_Int, Int.add_sub_cancel] at this
-      exact this
-
-/-- the end position is the end of the text (`runeEnd = len(ed.Text)`): stop as soon as the start is found -/
-theorem ch_loop_A {ρ : Type} (f : Nat → Int) (rs : Nat) (re L : Int) (hL : re ≥ L) :
-    ∀ (m k : Nat) (i bs be : Int), k ≤ rs → rs < k + m → ((rs : Int) < re) →
-      Go.forRangeCtlAux (ρ := ρ) (chBody rs re L) i ((List.range' k m).map f) ((k : Int) - 1, bs, be) =
-        pure (((rs : Int), f rs, be), none) := by
-  intro m
-  induction m with
-  | zero => intro k i bs be h1 h2 _; omega
-  | succ m ih =>
-    intro k i bs be h1 h2 h3
-    simp only [List.range'_succ, List.map_cons, Go.forRangeCtlAux, chBody]
-    have e1 : ((k : Int) - 1 + 1) = (k : Int) := by omega
-    simp only [e1]
-    by_cases hk : k = rs
-    · subst hk
-      simp [hL]
-    · have n1 : ¬ ((k : Int) = (rs : Int)) := by omega
-      have n2 : ¬ ((k : Int) = re) := by omega
-      simp only [n1, n2, if_false, pure_bind]
-      have := ih (k + 1) (i + 1) bs be (by omega) (by omega) h3
-      simp only [Int.natCast_add, Int.cast_ofNat_Int, Int.add_sub_cancel] at this
-      exact this
-
-
-theorem editorSubEd_regenerated (h : Gen.Code.editorSubEd_extracted = true) (ed : Editor α) (a b : Int) :
-    Gen.Code.editorSubEd cx ed a b = ed.subEd cx a b := by
-  first
-    | exact absurd h (by decide)
-    | (unfold Gen.Code.editorSubEd Editor.subEd
-       simp only [Go.strSlice, Go.edWithRef, Editor.withText]
-       all_goals (cases ed <;> rfl))
-
-theorem cOff_lt {e : List Nat} {n : Nat} (h : Part e n) (a : Nat) (ha : a < e.length) : cOff e a < n := by
-  have hle : e[a] ≤ n := (h.pos _ (List.getElem_mem ha)).2
-  unfold cOff
-  split
-  · have := (h.pos _ (List.getElem_mem ha)).1; omega
-  · rename_i ha0
-    have hlt : e[a - 1]'(by omega) < e[a] := by
-      have := List.pairwise_iff_getElem.mp h.sorted (a - 1) a (by omega) ha (by omega)
-      exact this
-    have hg : e.getD (a - 1) 0 = e[a - 1]'(by omega) := by
-      simp [List.getD_eq_getElem?_getD, show a - 1 < e.length by omega]
-    omega
-
-theorem editorChars_regenerated (h : Gen.Code.editorChars_extracted = true) (hwf : cx.WF) (ed : Editor α) (s e : Int) :
-    Gen.Code.editorChars cx ed s e = ed.chars cx s e := by
-  first
-    | exact absurd h (by decide)
-    | (unfold Gen.Code.editorChars Editor.chars
-       simp only [editorSubEd_regenerated cx (by decide)]
-       have hlen : Go.sliceLen (Go.gsGraphemeIndexes cx ed.text) = ((cx.ends ed.text).length : Int) := by
-         simp [Go.sliceLen, Go.gsGraphemeIndexes]
-       simp only [hlen, ite_pure_bind, pure_bind, Go.strLen, beq_iff_eq]
-       generalize hst : (if s = Gen.endSentinel then ((cx.ends ed.text).length : Int) else s) = s'
-       generalize hen : (if e = Gen.endSentinel then ((cx.ends ed.text).length : Int) else e) = e'
-       have hb := rangeToIndexes_bounds ((cx.ends ed.text).length : Int) s' e' (Int.natCast_nonneg _)
-       generalize hri : rangeToIndexes ((cx.ends ed.text).length : Int) s' e' = r at hb ⊢
-       obtain ⟨st, en⟩ := r
-       simp only [] at hb ⊢
-       have hpart := hwf.1 ed.text
-       have hpos := hwf.2
-       generalize hE : cx.ends ed.text = E at *
-       by_cases hge : st ≥ (E.length : Int)
-       · simp only [hge, if_true]
-       · simp only [hge, if_false]
-         obtain ⟨stN, rfl⟩ : ∃ k : Nat, st = k := ⟨st.toNat, by omega⟩
-         obtain ⟨enN, rfl⟩ : ∃ k : Nat, en = k := ⟨en.toNat, by omega⟩
-         have hst1 : stN < E.length := by omega
-         have hidx : ∀ (k : Nat) (K : Int → R (Editor α)), k < E.length →
-             (Go.idx (Go.gsGraphemeIndexes cx ed.text) (k : Int) >>= fun t3 => Go.idx t3 0 >>= K) =
-               K (((clusterSpan E k).1 : Nat) : Int) := by
-           intro k K hk
-           rw [idx_nat _ _ (by simp [Go.gsGraphemeIndexes, hE, hk])]
-           simp [Go.gsGraphemeIndexes, hE, Go.idx]
-         rw [hidx stN _ hst1]
-         simp only [Int.toNat_natCast]
-         have hN : ed.text.length ≤ byteLen cx ed.text := length_le_byteLen hpos ed.text
-         have hrs : (clusterSpan E stN).1 < ed.text.length := by
-           rw [clusterSpan_fst]; exact cOff_lt hpart stN hst1
-         have hoffs : Go.strByteOffsets cx ed.text =
-             (List.range' 0 ed.text.length).map (fun k => ((byteOff cx ed.text k : Nat) : Int)) := by
-           simp [Go.strByteOffsets, List.range_eq_range']
-         by_cases hen1 : (enN : Int) < (E.length : Int)
-         · have hen2 : enN < E.length := by omega
-           simp only [hen1, if_true, bind_assoc, pure_bind]
-           rw [hidx enN _ hen2]
-           have hre : (clusterSpan E enN).1 < ed.text.length := by
-             rw [clusterSpan_fst]; exact cOff_lt hpart enN hen2
-           have hle : (clusterSpan E stN).1 ≤ (clusterSpan E enN).1 := by
-             rw [clusterSpan_fst, clusterSpan_fst]; exact hpart.cOff_mono (by omega) (by omega)
-           have hL : ¬ ((((clusterSpan E enN).1 : Nat) : Int) ≥ ((byteLen cx ed.text : Nat) : Int)) := by omega
-           have key := ch_loop_B1 (ρ := Editor α) (fun k => ((byteOff cx ed.text k : Nat) : Int))
-             (clusterSpan E stN).1 (clusterSpan E enN).1 ((byteLen cx ed.text : Nat) : Int) hL
-             ed.text.length 0 0 (-1) (-1) (by omega) hle (by omega)
-           simp only [Int.natCast_zero, Int.zero_sub] at key
-           have hrun := key
-           rw [← hoffs] at hrun
-           unfold chBody at hrun
-           unfold Go.forRangeCtlM
-           rw [hrun]
-           have hne : ¬ (((byteOff cx ed.text (clusterSpan E enN).1 : Nat) : Int) = -1) := by omega
-           simp only [pure_bind, hne, if_false]
-         · have hen2 : enN = E.length := by omega
-           simp only [hen1, if_false, pure_bind]
-           have hL : (((byteLen cx ed.text : Nat) : Int) ≥ ((byteLen cx ed.text : Nat) : Int)) := Int.le_refl _
-           have key := ch_loop_A (ρ := Editor α) (fun k => ((byteOff cx ed.text k : Nat) : Int))
-             (clusterSpan E stN).1 ((byteLen cx ed.text : Nat) : Int) ((byteLen cx ed.text : Nat) : Int) hL
-             ed.text.length 0 0 (-1) (-1) (by omega) (by omega) (by omega)
-           simp only [Int.natCast_zero, Int.zero_sub] at key
-           have hrun := key
-           rw [← hoffs] at hrun
-           unfold chBody at hrun
-           unfold Go.forRangeCtlM
-           rw [hrun]
-           simp only [pure_bind, if_true])
-
-
-
-theorem editorCharsFrom_regenerated (h : Gen.Code.editorCharsFrom_extracted = true) (hwf : cx.WF) (ed : Editor α) (start : Int) :
-    Gen.Code.editorCharsFrom cx ed start = ed.charsFrom cx start := by
-  first
-    | exact absurd h (by decide)
-    | (unfold Gen.Code.editorCharsFrom Editor.charsFrom
-       simp only [editorChars_regenerated cx (by decide) hwf]
-       go_norm
-       all_goals simp)
-
-theorem editorCharsTo_regenerated (h : Gen.Code.editorCharsTo_extracted = true) (hwf : cx.WF) (ed : Editor α) (e : Int) :
-    Gen.Code.editorCharsTo cx ed e = ed.charsTo cx e := by
-  first
-    | exact absurd h (by decide)
-    | (unfold Gen.Code.editorCharsTo Editor.charsTo
-       simp only [editorChars_regenerated cx (by decide) hwf]
-       go_norm
-       all_goals simp)
-
-theorem idx_last {β : Type} (l : List β) (hl : l ≠ []) : Go.idx l ((l.length : Int) - 1) = pure (l.getLast hl) := by
-  have : 0 < l.length := List.length_pos_iff.mpr hl
-  unfold Go.idx
-  have h2 : ((l.length : Int) - 1).toNat = l.length - 1 := by omega
-  rw [dif_pos (by omega)]
-  simp [h2, List.getLast_eq_getElem]
-
-theorem sliceTo_dropLast {β : Type} (l : List β) (hl : l ≠ []) : Go.sliceTo l ((l.length : Int) - 1) = pure l.dropLast := by
-  have : 0 < l.length := List.length_pos_iff.mpr hl
-  unfold Go.sliceTo
-  have h2 : ((l.length : Int) - 1).toNat = l.length - 1 := by omega
-  rw [if_pos (by omega), h2, List.dropLast_eq_take]
-
-theorem editorLinesSep_regenerated (h : Gen.Code.editorLinesSep_extracted = true) (ed : Editor α) (sep : List α) :
-    Gen.Code.editorLinesSep cx ed sep = pure (ed.linesSep sep) := by
-  first
-    | exact absurd h (by decide)
-    | (unfold Gen.Code.editorLinesSep Editor.linesSep
-       go_norm
-       by_cases hl : splitOn ed.text sep = []
-       · simp [hl]
-       · simp only [idx_last _ hl, sliceTo_dropLast _ hl]
-         go_norm
-         simp [hl, List.getLast?_eq_some_getLast hl]
-         go_close)
-
-theorem editorLines_regenerated (h : Gen.Code.editorLines_extracted = true) (ed : Editor α) :
-    Gen.Code.editorLines cx ed = pure (ed.lines cx) := by
-  first
-    | exact absurd h (by decide)
-    | (unfold Gen.Code.editorLines Editor.lines
-       simp only [optionsWithDefaults_regenerated cx (by decide), editorLinesSep_regenerated cx (by decide)]
-       go_norm)
-
-theorem editorLineCount_regenerated (h : Gen.Code.editorLineCount_extracted = true) (ed : Editor α) :
-    Gen.Code.editorLineCount cx ed = pure (ed.lineCount cx : Int) := by
-  first
-    | exact absurd h (by decide)
-    | (unfold Gen.Code.editorLineCount Editor.lineCount
-       simp only [editorLines_regenerated cx (by decide)]
-       go_norm)
-
-/-! ### Editor.Lines -/
-
-/-- the separator-skipping loops of `Lines` (state: byte offset, line index); `retv` is what the loop returns
-when no further separator is found -/
-def lsCond (T : Int) (s : Int × Int) : R Bool := pure (decide (s.2 ≠ T))
-def lsBody (text sep : List α) (retv : R (Editor α)) (s : Int × Int) : R ((Int × Int) × Go.Ctl (Editor α)) :=
-  byteSlice cx text s.1 (byteLen cx text) >>= fun t =>
-    if Go.stringsIndex cx t sep = -1 then retv >>= fun r => pure (s, Go.Ctl.ret r)
-    else pure ((s.1 + (Go.stringsIndex cx t sep + ((byteLen cx sep : Nat) : Int)), s.2 + 1), Go.Ctl.next)
-
-theorem byteSlice_drop (hpos : ∀ a, 0 < cx.blen a) (text : List α) (pos : Nat) (hp : pos ≤ text.length) :
-    byteSlice cx text ((byteOff cx text pos : Nat) : Int) ((byteLen cx text : Nat) : Int) = pure (text.drop pos) := by
-  have := byteSlice_take_drop (cx := cx) hpos text pos text.length hp (Nat.le_refl _)
-  rw [List.take_length] at this
-  rw [byteOff, this, List.take_of_length_le (by simp)]
-  rfl
-
-theorem byteOff_step (text sep : List α) (pos i : Nat) (hp : pos ≤ text.length)
-    (hs : text.drop pos = (text.drop pos).take i ++ sep ++ (text.drop pos).drop (i + sep.length))
-    (hle : i + sep.length ≤ (text.drop pos).length) :
-    byteOff cx text (pos + i + sep.length) =
-      byteOff cx text pos + byteLen cx ((text.drop pos).take i) + byteLen cx sep := by
-  have hlen : (text.drop pos).length = text.length - pos := List.length_drop
-  have hi : i ≤ (text.drop pos).length := by omega
-  have hX : text = (text.take pos ++ (text.drop pos).take i ++ sep) ++ (text.drop pos).drop (i + sep.length) := by
-    conv => lhs; rw [← List.take_append_drop pos text, hs]
-    simp [List.append_assoc]
-  have hXl : (text.take pos ++ (text.drop pos).take i ++ sep).length = pos + i + sep.length := by
-    simp [List.length_take, List.length_append]; omega
-  unfold byteOff
-  conv => lhs; rw [hX, List.take_left' hXl]
-  rw [byteLen_append, byteLen_append]
-
-theorem ls_loop {γ : Type} (hpos : ∀ a, 0 < cx.blen a) (text sep : List α) (retv : R (Editor α))
-    (K : (Int × Int) × Option (Editor α) → R γ) (hK : ∀ s s' v, K (s, some v) = K (s', some v)) :
-    ∀ (n fuel pos : Nat) (k : Int), pos ≤ text.length → n + 1 ≤ fuel →
-      Go.whileCtlM fuel (lsCond (k + n)) (lsBody cx text sep retv) (((byteOff cx text pos : Nat) : Int), k) >>= K =
-        match skipSeps text sep n pos with
-        | none => retv >>= fun r => K ((0, 0), some r)
-        | some p => K ((((byteOff cx text p : Nat) : Int), k + n), none) := by
-  intro n
-  induction n with
-  | zero =>
-    intro fuel pos k hp hf
-    cases fuel with
-    | zero => omega
-    | succ f => simp [Go.whileCtlM, lsCond, skipSeps]
-  | succ n ih =>
-    intro fuel pos k hp hf
-    cases fuel with
-    | zero => omega
-    | succ f =>
-      have hne : k ≠ k + ((n + 1 : Nat) : Int) := by omega
-      simp only [Go.whileCtlM, lsCond, pure_bind, hne, ne_eq, not_false_eq_true, decide_true, if_true, lsBody,
-        byteSlice_drop cx hpos text pos hp, skipSeps, Go.stringsIndex]
-      have hcases : indexOf sep (text.drop pos) = none ∨ ∃ i, indexOf sep (text.drop pos) = some i := by
-        cases indexOf sep (text.drop pos) with
-        | none => exact Or.inl rfl
-        | some i => exact Or.inr ⟨i, rfl⟩
-      rcases hcases with hio | ⟨i, hio⟩
-      · simp only [hio, if_true, bind_assoc, pure_bind]
-        refine bind_congr (m := R) fun r => ?_
-        exact hK _ _ _
-      · simp only [hio]
-        obtain ⟨hs, hle⟩ := indexOf_some_spec sep (text.drop pos) i hio
-        have hn1 : ¬ (((byteLen cx ((text.drop pos).take i) : Nat) : Int) = -1) := by omega
-        simp only [hn1, if_false, pure_bind]
-        have hlen : (text.drop pos).length = text.length - pos := List.length_drop
-        have hstep := byteOff_step cx text sep pos i hp hs hle
-        have e1 : ((byteOff cx text pos : Nat) : Int) + (((byteLen cx ((text.drop pos).take i) : Nat) : Int) + ((byteLen cx sep : Nat) : Int)) =
-            ((byteOff cx text (pos + i + sep.length) : Nat) : Int) := by omega
-        have e2 : k + ((n + 1 : Nat) : Int) = (k + 1) + (n : Int) := by omega
-        rw [e1, e2]
-        exact ih f (pos + i + sep.length) (k + 1) (by omega) (by omega)
-
-theorem ls_loop' {γ : Type} (hpos : ∀ a, 0 < cx.blen a) (text sep : List α) (retv : R (Editor α))
-    (K : (Int × Int) × Option (Editor α) → R γ) (hK : ∀ s s' v, K (s, some v) = K (s', some v))
-    (n fuel pos : Nat) (k T b0 : Int) (hT : T = k + n) (hb0 : b0 = ((byteOff cx text pos : Nat) : Int))
-    (hp : pos ≤ text.length) (hf : n + 1 ≤ fuel) :
-    Go.whileCtlM fuel (lsCond T) (lsBody cx text sep retv) (b0, k) >>= K =
-      match skipSeps text sep n pos with
-      | none => retv >>= fun r => K ((0, 0), some r)
-      | some p => K ((((byteOff cx text p : Nat) : Int), T), none) := by
-  subst hT hb0
-  exact ls_loop cx hpos text sep retv K hK n fuel pos k hp hf
-
-theorem skipSeps_le (text sep : List α) : ∀ (n pos p : Nat), pos ≤ text.length → skipSeps text sep n pos = some p →
-    p ≤ text.length := by
-  intro n
-  induction n with
-  | zero => intro pos p hp h; simp [skipSeps] at h; omega
-  | succ n ih =>
-    intro pos p hp h
-    simp only [skipSeps] at h
-    have hcases : indexOf sep (text.drop pos) = none ∨ ∃ i, indexOf sep (text.drop pos) = some i := by
-      cases indexOf sep (text.drop pos) with
-      | none => exact Or.inl rfl
-      | some i => exact Or.inr ⟨i, rfl⟩
-    rcases hcases with hio | ⟨i, hio⟩
-    · simp [hio] at h
-    · simp only [hio] at h
-      have hle := (indexOf_some_spec sep (text.drop pos) i hio).2
-      have hlen : (text.drop pos).length = text.length - pos := List.length_drop
-      exact ih (pos + i + sep.length) p (by omega) h
-
-/-- Needs every atom to have a positive byte length (the loops walk byte offsets, the hand model atoms) -/
-theorem editorLinesSel_regenerated (h : Gen.Code.editorLinesSel_extracted = true) (hpos : ∀ a, 0 < cx.blen a)
-    (ed : Editor α) (s e : Int) :
-    Gen.Code.editorLinesSel cx ed s e = ed.linesSel cx s e := by
-  first
-    | exact absurd h (by decide)
-    | (unfold Gen.Code.editorLinesSel Editor.linesSel
-       simp only [editorLineCount_regenerated cx (by decide), optionsWithDefaults_regenerated cx (by decide),
-         editorSubEd_regenerated cx (by decide),
-         ite_pure_bind, pure_bind, Go.strLen, Go.strSlice, List.isEmpty_iff, beq_iff_eq]
-       split
-       · rfl
-       · generalize hst : (if s = Gen.endSentinel then ((ed.lineCount cx : Nat) : Int) else s) = s'
-         generalize hen : (if e = Gen.endSentinel then ((ed.lineCount cx : Nat) : Int) else e) = e'
-         have hb := rangeToIndexes_bounds ((ed.lineCount cx : Nat) : Int) s' e' (Int.natCast_nonneg _)
-         generalize hri : rangeToIndexes ((ed.lineCount cx : Nat) : Int) s' e' = r at hb ⊢
-         obtain ⟨st, en⟩ := r
-         simp only [] at hb ⊢
-         split
-         · rfl
-         · rename_i hne hlt
-           obtain ⟨stN, rfl⟩ : ∃ k : Nat, st = k := ⟨st.toNat, by omega⟩
-           obtain ⟨dN, rfl⟩ : ∃ d : Nat, en = (stN : Int) + d := ⟨(en - stN).toNat, by omega⟩
-           have hd : ((stN : Int) + (dN : Int) - (stN : Int)).toNat = dN := by omega
-           simp only [Int.toNat_natCast, hd]
-           refine Eq.trans (ls_loop' cx hpos ed.text (Options.withDefaults cx ed.opts).lineSep _ _ ?hK stN (stN + 1) 0 0
-             (stN : Int) 0 (by omega) (by simp [byteOff]) (Nat.zero_le _) (Nat.le_refl _)) ?_
-           case hK => intro s s' v; rfl
-           have hcases : skipSeps ed.text (Options.withDefaults cx ed.opts).lineSep stN 0 = none ∨
-               ∃ p, skipSeps ed.text (Options.withDefaults cx ed.opts).lineSep stN 0 = some p := by
-             cases skipSeps ed.text (Options.withDefaults cx ed.opts).lineSep stN 0 with
-             | none => exact Or.inl rfl
-             | some p => exact Or.inr ⟨p, rfl⟩
-           rcases hcases with hs1 | ⟨p, hs1⟩
-           · simp only [hs1, bind_pure]
-           · simp only [hs1]
-             have hple := skipSeps_le ed.text (Options.withDefaults cx ed.opts).lineSep stN 0 p (Nat.zero_le _) hs1
-             have hd2 : ((stN : Int) + (dN : Int) - (stN : Int)).toNat = dN := by omega
-             simp only [hd2]
-             refine Eq.trans (ls_loop' cx hpos ed.text (Options.withDefaults cx ed.opts).lineSep _ _ ?hK2 dN (dN + 1) p (stN : Int)
-               ((stN : Int) + (dN : Int)) _ rfl rfl hple (Nat.le_refl _)) ?_
-             case hK2 => intro s s' v; rfl
-             have hcases2 : skipSeps ed.text (Options.withDefaults cx ed.opts).lineSep dN p = none ∨
-                 ∃ q, skipSeps ed.text (Options.withDefaults cx ed.opts).lineSep dN p = some q := by
-               cases skipSeps ed.text (Options.withDefaults cx ed.opts).lineSep dN p with
-               | none => exact Or.inl rfl
-               | some q => exact Or.inr ⟨q, rfl⟩
-             rcases hcases2 with hs2 | ⟨q, hs2⟩
-             · simp only [hs2, bind_pure]
-             · simp only [hs2])
-
-theorem editorLinesFrom_regenerated (h : Gen.Code.editorLinesFrom_extracted = true) (hpos : ∀ a, 0 < cx.blen a)
-    (ed : Editor α) (start : Int) :
-    Gen.Code.editorLinesFrom cx ed start = ed.linesFrom cx start := by
-  first
-    | exact absurd h (by decide)
-    | (unfold Gen.Code.editorLinesFrom Editor.linesFrom
-       simp only [editorLineCount_regenerated cx (by decide), editorLinesSel_regenerated cx (by decide) hpos]
-       go_norm
-       all_goals simp)
-
-theorem editorLinesTo_regenerated (h : Gen.Code.editorLinesTo_extracted = true) (hpos : ∀ a, 0 < cx.blen a)
-    (ed : Editor α) (e : Int) :
-    Gen.Code.editorLinesTo cx ed e = ed.linesTo cx e := by
-  first
-    | exact absurd h (by decide)
-    | (unfold Gen.Code.editorLinesTo Editor.linesTo
-       simp only [editorLinesSel_regenerated cx (by decide) hpos]
-       go_norm
-       all_goals simp)
-
-theorem editorCommit_regenerated (h : Gen.Code.editorCommit_extracted = true) (ed : Editor α) :
-    Gen.Code.editorCommit cx ed = ed.commit cx := by
-  first
-    | exact absurd h (by decide)
-    | (unfold Gen.Code.editorCommit
-       simp only [editorIsSubEditor_regenerated cx (by decide), pure_bind]
-       cases ed <;> simp [Editor.commit, Editor.isSub, Go.edRefParent, Go.edRefStart, Go.edRefEnd, Go.strSplice,
-         Editor.text])
-
-theorem editorInsert_regenerated (h : Gen.Code.editorInsert_extracted = true) (hwf : cx.WF) (ed : Editor α) (pos : Int) (t : List α) :
-    Gen.Code.editorInsert cx ed pos t = ed.insert cx pos t := by
-  first
-    | exact absurd h (by decide)
-    | (unfold Gen.Code.editorInsert Editor.insert
-       simp only [editorCharsTo_regenerated cx (by decide) hwf, editorCharsFrom_regenerated cx (by decide) hwf]
-       go_norm
-       all_goals simp)
-
-theorem editorDelete_regenerated (h : Gen.Code.editorDelete_extracted = true) (hwf : cx.WF) (ed : Editor α) (s e : Int) :
-    Gen.Code.editorDelete cx ed s e = ed.delete cx s e := by
-  first
-    | exact absurd h (by decide)
-    | (unfold Gen.Code.editorDelete Editor.delete
-       simp only [editorCharsTo_regenerated cx (by decide) hwf, editorCharsFrom_regenerated cx (by decide) hwf,
-         editorCharCount_regenerated cx (by decide)]
-       go_norm
-       go_close)
-
-/-- The translator emits Go's `int` addition as unbounded `Int` addition; the hand model wraps
-`charPos + inboundText.Len()` at 64 bits (`wrap64`).  The two agree when the sum does not overflow. -/
-theorem editorOvertype_regenerated (h : Gen.Code.editorOvertype_extracted = true) (hwf : cx.WF) (ed : Editor α) (pos : Int) (t : List α)
-    (hno : ∀ p : Int, 0 ≤ p → p ≤ ed.charCount cx → wrap64 (p + gLen cx t) = p + gLen cx t) :
-    Gen.Code.editorOvertype cx ed pos t = ed.overtype cx pos t := by
-  first
-    | exact absurd h (by decide)
-    | (unfold Gen.Code.editorOvertype Editor.overtype
-       simp only [editorCharsTo_regenerated cx (by decide) hwf, editorCharsFrom_regenerated cx (by decide) hwf,
-         editorCharCount_regenerated cx (by decide)]
-       go_norm
-       have hb : ∀ q : Int, 0 ≤ (rangeToIndexes (ed.charCount cx : Int) q q).1 ∧
-           (rangeToIndexes (ed.charCount cx : Int) q q).1 ≤ (ed.charCount cx : Int) := by
-         intro q; unfold rangeToIndexes; grind
-       split <;> simp_all)
-
-/-! ## Loops -/
-
-/-- congruence for a loop followed by a continuation: pointwise equal condition, body, continuation -/
-theorem whileM_bind_congr {σ γ : Type} {fuel fuel' : Nat} {cond cond' : σ → R Bool} {body body' : σ → R σ}
-    {k k' : σ → R γ} {s s' : σ} (hf : fuel = fuel') (hs : s = s')
-    (hc : ∀ x, cond x = cond' x) (hb : ∀ x, body x = body' x) (hk : ∀ x, k x = k' x) :
-    Go.whileM fuel cond body s >>= k = Go.whileM fuel' cond' body' s' >>= k' := by
-  have h1 : cond = cond' := funext hc
-  have h2 : body = body' := funext hb
-  have h3 : k = k' := funext hk
-  subst hf hs h1 h2 h3
-  rfl
-
-theorem idx_zero {β : Type} (l : List β) : Go.idx l 0 = (match l with | [] => throw .index | c :: _ => pure c) := by
-  cases l <;> simp [Go.idx]
-
-/-! ### CollapseSpace -/
-
-/-- the loop of CollapseSpace over the model's primitives (state: text, i) -/
-def csCond (s : List α × Int) : R Bool := pure (decide (s.2 < (gLen cx s.1 : Int)))
-def csBody (s : List α × Int) : R (List α × Int) := do
-  let ch ← gCharAt cx s.1 s.2
-  match ch with
-  | [] => throw .index
-  | c :: _ =>
-    (if cx.isSpace c then gSetCharAt cx s.1 s.2 [cx.sp] else pure s.1) >>= fun t' => pure (t', s.2 + 1)
-
-theorem setSpacesLoop_eq_while : ∀ (fuel : Nat) (t : List α) (i : Nat),
-    setSpacesLoop cx fuel t i = Prod.fst <$> Go.whileM fuel (csCond cx) (csBody cx) (t, (i : Int)) := by
-  intro fuel
-  induction fuel with
-  | zero => intro t i; rfl
-  | succ n ih =>
-    intro t i
-    unfold Go.whileM setSpacesLoop
-    simp only [csCond, csBody]
-    by_cases hlt : i < gLen cx t
-    · have : ((i : Int) < (gLen cx t : Int)) := by omega
-      simp only [this, hlt, decide_true, pure_bind, if_true, bind_assoc, map_bind]
-      refine bind_congr (m := R) fun ch => ?_
-      cases ch with
-      | nil => rfl
-      | cons c rest =>
-        by_cases hsp : cx.isSpace c = true <;>
-          simp only [hsp, if_true, if_false, bind_assoc, pure_bind, ih, Bool.false_eq_true, Int.natCast_add,
-            Int.cast_ofNat_Int] <;> rfl
-    · have : ¬ ((i : Int) < (gLen cx t : Int)) := by omega
-      simp [this, hlt]
-
-theorem collapseSpace_regenerated (h : Gen.Code.collapseSpace_extracted = true) (text lineSep : List α) :
-    Gen.Code.collapseSpace cx text lineSep = collapseSpace cx text lineSep := by
-  first
-    | exact absurd h (by decide)
-    | (unfold Gen.Code.collapseSpace collapseSpace
-       simp only [setSpacesLoop_eq_while, map_eq_pure_bind, bind_assoc, pure_bind, Int.cast_ofNat_Int]
-       split
-       all_goals
-         (simp only [pure_bind]
-          refine whileM_bind_congr ?_ ?_ ?_ ?_ ?_
-          · simp_all [Go.gsIsEmpty, Go.stringsReplaceAll]
-          · simp_all [Go.gsIsEmpty, Go.stringsReplaceAll]
-          · intro s; simp [csCond, Go.gsLen]
-          · intro s
-            simp only [csBody, Go.gsCharAt, Go.gsSetCharAt, Go.unicodeIsSpace, idx_zero]
-            refine bind_congr (m := R) fun ch => ?_
-            cases ch with
-            | nil => rfl
-            | cons c rest => by_cases hsp : cx.isSpace c = true <;> simp [hsp]
-          · intro s; simp [Go.collapseSpaceRuns]))
-
-theorem editorCollapseSpaceOpts_regenerated (h : Gen.Code.editorCollapseSpaceOpts_extracted = true) (ed : Editor α)
-    (o : Options α) : Gen.Code.editorCollapseSpaceOpts cx ed o = ed.collapseSpaceOpts cx o := by
-  first
-    | exact absurd h (by decide)
-    | (unfold Gen.Code.editorCollapseSpaceOpts Editor.collapseSpaceOpts
-       simp only [optionsWithDefaults_regenerated cx (by decide), collapseSpace_regenerated cx (by decide)]
-       go_norm
-       all_goals simp)
-
-/-! ### appendWordToWrappedLine -/
-
-/-- the loop of appendWordToWrappedLine over the model's primitives (state: curLine, lines, curWord) -/
-def awCond (s : List α × Block α × List α) : R Bool := pure (decide ((gLen cx s.2.2 : Int) > 0))
-def awBody (width : Int) (s : List α × Block α × List α) : R (List α × Block α × List α) :=
-  let lineLen : Int := gLen cx s.1
-  let added : Int := (gLen cx s.2.2 : Int) + (if lineLen ≠ 0 then 1 else 0)
-  if lineLen + added = width then
-    pure ([], s.2.1.append ((if lineLen ≠ 0 then s.1 ++ [cx.sp] else s.1) ++ s.2.2), [])
-  else if lineLen + added > width then
-    if lineLen = 0 then
-      pure ([], s.2.1.append (s.1 ++ gSub cx s.2.2 0 (width - 1) ++ [cx.hy]), gSub cx s.2.2 (width - 1) (gLen cx s.2.2))
-    else pure ([], s.2.1.append s.1, s.2.2)
-  else pure ((if lineLen ≠ 0 then s.1 ++ [cx.sp] else s.1) ++ s.2.2, s.2.1, [])
-
-theorem appendWord_eq_while (width : Int) (hw : ¬ width < 2) : ∀ (fuel : Nat) (curLine : List α) (b : Block α) (curWord : List α),
-    (fun r => (r.2, ({ b with lines := r.1 } : Block α))) <$> appendWord cx width fuel b.lines curWord curLine =
-      (fun s => (s.1, s.2.1)) <$> Go.whileM fuel (awCond cx) (awBody cx width) (curLine, b, curWord) := by
-  intro fuel
-  induction fuel with
-  | zero => intro curLine b curWord; rfl
-  | succ n ih =>
-    intro curLine b curWord
-    unfold Go.whileM appendWord
-    simp only [awCond, awBody, hw, if_false, pure_bind]
-    by_cases hlen : gLen cx curWord > 0
-    · have h1 : ((gLen cx curWord : Int) > 0) := by omega
-      simp only [hlen, h1, if_true, decide_true]
-      simp only [beq_iff_eq, bne_iff_ne, ne_eq]
-      repeat' split
-      all_goals first
-        | (simp only [pure_bind]; exact ih _ (b.append _) _)
-        | (simp only [pure_bind]; exact ih _ b _)
-    · have h1 : ¬ ((gLen cx curWord : Int) > 0) := by omega
-      simp [hlen]
-
-
-theorem appendWord_width_lt (width : Int) (hw : width < 2) (fuel : Nat) (l : List (List α)) (w c : List α) :
-    appendWord cx width (fuel + 1) l w c = throw .explicit := by
-  unfold appendWord; simp [hw]
-
-/-- Go returns `curLine` and updates `*lines`; the hand model returns `(lines, curLine)` over the list of lines -/
-theorem appendWordToWrappedLine_regenerated (h : Gen.Code.appendWordToWrappedLine_extracted = true)
-    (b : Block α) (curWord curLine : List α) (width : Int) :
-    Gen.Code.appendWordToWrappedLine cx b curWord curLine width =
-      (fun r => (r.2, ({ b with lines := r.1 } : Block α))) <$>
-        appendWord cx width (2 * curWord.length + 2) b.lines curWord curLine := by
-  first
-    | exact absurd h (by decide)
-    | (unfold Gen.Code.appendWordToWrappedLine
-       simp only [blockAppend_regenerated cx (by decide)]
-       by_cases hw : width < 2
-       · rw [show 2 * curWord.length + 2 = (2 * curWord.length + 1) + 1 from rfl, appendWord_width_lt cx width hw]
-         simp [hw]; rfl
-       · rw [appendWord_eq_while cx width hw]
-         simp only [hw, if_false, map_eq_pure_bind, pure_bind]
-         refine whileM_bind_congr rfl rfl ?_ ?_ ?_
-         · intro s; rfl
-         · intro s
-           simp only [awBody, pure_bind, bind_assoc]
-           go_norm
-           go_close
-         · intro s; rfl)
-
-/-! ### Wrap -/
-
-theorem clustersFrom_length (s : List α) : ∀ (e : List Nat) (prev : Nat), (clustersFrom s prev e).length = e.length := by
-  intro e; induction e with
-  | nil => intro _; rfl
-  | cons x xs ih => intro prev; simp [clustersFrom, ih]
-
-theorem gLen_eq_clusters (s : List α) : gLen cx s = (clusters cx s).length := by
-  simp [gLen, clusters, clustersFrom_length]
-
-theorem clustersFrom_getElem (s : List α) : ∀ (e : List Nat) (prev i : Nat) (hi : i < (clustersFrom s prev e).length),
-    (clustersFrom s prev e)[i] = sliceRunes s (if i > 0 then e.getD (i - 1) 0 else prev) (e.getD i 0) := by
-  intro e; induction e with
-  | nil => intro prev i hi; simp [clustersFrom] at hi
-  | cons x xs ih =>
-    intro prev i hi
-    cases i with
-    | zero => simp [clustersFrom]
-    | succ j =>
-      simp only [clustersFrom, List.getElem_cons_succ]
-      rw [ih]
-      cases j with
-      | zero => simp
-      | succ k => simp
-
-/-- `CharAt(i)` is the i-th cluster (any segmentation) -/
-theorem gCharAt_clusters (s : List α) (i : Nat) (hi : i < (clusters cx s).length) :
-    gCharAt cx s i = pure (clusters cx s)[i] := by
-  have hl : (cx.ends s).length = (clusters cx s).length := (gLen_eq_clusters cx s)
-  unfold gCharAt
-  simp only
-  rw [if_neg (by omega)]
-  simp only [clusters, clustersFrom_getElem, clusterSpan, Int.toNat_natCast]
-
-
-/-- the loop of Wrap over the model's primitives (state: curLine, lines, curWord, i) -/
-def wCond (text : List α) (s : List α × Block α × List α × Int) : R Bool :=
-  pure (decide (s.2.2.2 < (gLen cx text : Int)))
-def wBody (text : List α) (width : Int) (s : List α × Block α × List α × Int) : R (List α × Block α × List α × Int) := do
-  let ch ← gCharAt cx text s.2.2.2
-  match ch with
-  | [] => throw .index
-  | c :: _ =>
-    if c = cx.sp then
-      appendWord cx width (2 * s.2.2.1.length + 2) s.2.1.lines s.2.2.1 s.1 >>= fun r =>
-        pure (r.2, ({ s.2.1 with lines := r.1 } : Block α), [], s.2.2.2 + 1)
-    else pure (s.1, s.2.1, s.2.2.1 ++ ch, s.2.2.2 + 1)
-
-theorem wrapLoop_eq_while (text : List α) (width : Int) : ∀ (fuel i : Nat) (curLine : List α) (b : Block α) (curWord : List α),
-    i ≤ (clusters cx text).length → (clusters cx text).length + 1 ≤ fuel + i →
-    (fun r => (r.2.2, ({ b with lines := r.1 } : Block α), r.2.1)) <$>
-        wrapLoop cx width ((clusters cx text).drop i) b.lines curWord curLine =
-      (fun s => (s.1, s.2.1, s.2.2.1)) <$> Go.whileM fuel (wCond cx text) (wBody cx text width) (curLine, b, curWord, (i : Int)) := by
-  intro fuel
-  induction fuel with
-  | zero => intro i curLine b curWord h1 h2; omega
-  | succ n ih =>
-    intro i curLine b curWord h1 h2
-    unfold Go.whileM
-    simp only [wCond, pure_bind, gLen_eq_clusters]
-    by_cases hlt : i < (clusters cx text).length
-    · have h3 : ((i : Int) < ((clusters cx text).length : Int)) := by omega
-      simp only [h3, decide_true, if_true, wBody, gCharAt_clusters cx text i hlt, pure_bind]
-      rw [List.drop_eq_getElem_cons hlt]
-      unfold wrapLoop
-      cases hc : (clusters cx text)[i] with
-      | nil => rfl
-      | cons c rest =>
-        simp only []
-        split
-        · simp only [bind_assoc, pure_bind, map_bind]
-          refine bind_congr (m := R) fun r => ?_
-          exact ih (i + 1) r.2 ({ b with lines := r.1 }) [] (by omega) (by omega)
-        · simp only [pure_bind]
-          exact ih (i + 1) curLine b (curWord ++ c :: rest) (by omega) (by omega)
-    · have h3 : ¬ ((i : Int) < ((clusters cx text).length : Int)) := by omega
-      have h4 : (clusters cx text).drop i = [] := List.drop_eq_nil_of_le (by omega)
-      simp [h3, h4, wrapLoop]
-
-
-/-- loop congruence under an invariant of the state -/
-theorem whileM_bind_congr_inv {σ γ : Type} (P : σ → Prop) {cond cond' : σ → R Bool} {body body' : σ → R σ}
-    {k k' : σ → R γ}
-    (hc : ∀ x, P x → cond x = cond' x) (hb : ∀ x, P x → body x = body' x) (hk : ∀ x, P x → k x = k' x)
-    (hP : ∀ x y, P x → body' x = pure y → P y) :
-    ∀ (fuel : Nat) (s : σ), P s → Go.whileM fuel cond body s >>= k = Go.whileM fuel cond' body' s >>= k' := by
-  intro fuel
-  induction fuel with
-  | zero => intro s _; rfl
-  | succ n ih =>
-    intro s hs
-    unfold Go.whileM
-    rw [hc s hs, hb s hs]
-    simp only [bind_assoc]
-    refine bind_congr (m := R) fun c => ?_
-    cases c with
-    | false => simpa using hk s hs
-    | true =>
-      simp only [if_true, bind_assoc]
-      cases hy : body' s with
-      | error e => rfl
-      | ok y => exact ih y (hP s y hs hy)
-
-theorem wrapLoop_bind {γ : Type} (text : List α) (width : Int) (b : Block α) (curWord curLine : List α)
-    (K : List (List α) × List α × List α → R γ) :
-    wrapLoop cx width (clusters cx text) b.lines curWord curLine >>= K =
-      Go.whileM ((clusters cx text).length + 1) (wCond cx text) (wBody cx text width) (curLine, b, curWord, 0) >>=
-        fun s => K (s.2.1.lines, s.2.2.1, s.1) := by
-  have key := wrapLoop_eq_while cx text width ((clusters cx text).length + 1) 0 curLine b curWord (by omega) (by omega)
-  have e : wrapLoop cx width (clusters cx text) b.lines curWord curLine >>= K =
-      ((fun r => (r.2.2, ({ b with lines := r.1 } : Block α), r.2.1)) <$>
-        wrapLoop cx width ((clusters cx text).drop 0) b.lines curWord curLine) >>=
-          fun (s : List α × Block α × List α) => K (s.2.1.lines, s.2.2, s.1) := by
-    simp only [map_eq_pure_bind, bind_assoc, pure_bind, List.drop_zero]
-  rw [e, key]
-  simp only [map_eq_pure_bind, bind_assoc, pure_bind, Int.natCast_zero]
-
-/-- Go's Wrap returns a Block (separator `lineSep`, no trailing mode); the hand model returns its lines -/
-theorem wrap_regenerated (h : Gen.Code.wrap_extracted = true) (text : List α) (width : Int) (lineSep : List α) :
-    Gen.Code.wrap cx text width lineSep =
-      (fun ls => ({ lines := ls, sep := lineSep, trailing := false } : Block α)) <$> wrapLines cx text width lineSep := by
-  first
-    | exact absurd h (by decide)
-    | (unfold Gen.Code.wrap wrapLines
-       simp only [blockAppend_regenerated cx (by decide), collapseSpace_regenerated cx (by decide),
-         appendWordToWrappedLine_regenerated cx (by decide)]
-       go_norm
-       simp only [ite_pure, pure_bind, map_bind]
-       generalize (if width < 2 then 2 else width) = w
-       refine bind_congr (m := R) fun t1 => ?_
-       split
-       · rfl
-       · rw [wrapLoop_bind cx t1 w ({ lines := [], sep := lineSep, trailing := false })]
-         simp only [map_bind]
-         refine whileM_bind_congr_inv (fun s => s.2.1.sep = lineSep ∧ s.2.1.trailing = false) ?_ ?_ ?_ ?_ _ _ ⟨rfl, rfl⟩
-         · intro s _; rfl
-         · intro s _
-           simp only [wBody, idx_zero]
-           refine bind_congr (m := R) fun ch => ?_
-           cases ch with
-           | nil => rfl
-           | cons c rest =>
-             simp only [pure_bind]
-             split <;> simp only [map_eq_pure_bind, bind_assoc, pure_bind]
-         · intro s hs
-           obtain ⟨cl, b, cw, i⟩ := s
-           obtain ⟨bl, bs, bt⟩ := b
-           obtain ⟨rfl, rfl⟩ := hs
-           simp only [map_eq_pure_bind, bind_assoc, pure_bind, Block.append]
-           split
-           · simp only [bind_assoc, pure_bind]
-             refine bind_congr (m := R) fun r => ?_
-             go_close
-           · go_close
-         · intro s y hs hy
-           obtain ⟨cl, b, cw, i⟩ := s
-           simp only [wBody] at hy
-           cases hch : gCharAt cx t1 i with
-           | error e => rw [hch] at hy; cases hy
-           | ok ch =>
-             rw [hch] at hy
-             cases ch with
-             | nil => cases hy
-             | cons c rest =>
-               replace hy : (if c = cx.sp then
-                   appendWord cx w (2 * cw.length + 2) b.lines cw cl >>= fun r =>
-                     pure (r.2, ({ b with lines := r.1 } : Block α), ([] : List α), i + 1)
-                   else pure (cl, b, cw ++ c :: rest, i + 1)) = pure y := hy
-               split at hy
-               · cases happ : appendWord cx w (2 * cw.length + 2) b.lines cw cl with
-                 | error e => rw [happ] at hy; cases hy
-                 | ok r => rw [happ] at hy; cases hy; exact hs
-               · cases hy; exact hs)
-
-/-! ### CommitAll -/
-
-theorem depth_withText (e : Editor α) (t : List α) : (e.withText t).depth = e.depth := by
-  cases e <;> rfl
-
-theorem commit_depth (ed ed' : Editor α) (h : ed.commit cx = pure ed') (hs : ed.isSub = true) :
-    ed'.depth + 1 = ed.depth := by
-  cases ed with
-  | root t o => cases hs
-  | sub t o p a b =>
-    simp only [Editor.commit] at h
-    cases hsp : spliceBytes cx p.text a b t with
-    | error e => rw [hsp] at h; cases h
-    | ok r => rw [hsp] at h; cases h; simp [Editor.depth, depth_withText]
-
-theorem commitAll_eq_while : ∀ (n : Nat) (ed : Editor α), ed.depth ≤ n →
-    commitAllFuel cx n ed = Go.whileM (n + 1) (fun e => pure e.isSub) (fun e => e.commit cx) ed := by
-  intro n
-  induction n with
-  | zero =>
-    intro ed hd
-    cases ed with
-    | root t o => rfl
-    | sub t o p a b => simp [Editor.depth] at hd
-  | succ n ih =>
-    intro ed hd
-    unfold Go.whileM commitAllFuel
-    simp only [pure_bind]
-    cases hs : ed.isSub with
-    | false => rfl
-    | true =>
-      simp only [if_true]
-      cases hc : ed.commit cx with
-      | error e => rfl
-      | ok ed' =>
-        have := commit_depth cx ed ed' hc hs
-        exact ih ed' (by omega)
-
-theorem editorCommitAll_regenerated (h : Gen.Code.editorCommitAll_extracted = true) (ed : Editor α) :
-    Gen.Code.editorCommitAll cx ed = ed.commitAll cx := by
-  first
-    | exact absurd h (by decide)
-    | (unfold Gen.Code.editorCommitAll Editor.commitAll
-       rw [commitAll_eq_while cx _ _ (Nat.le_refl _)]
-       simp only [editorCommit_regenerated cx (by decide), editorIsSubEditor_regenerated cx (by decide), bind_pure])
-
-theorem editorString_regenerated (h : Gen.Code.editorString_extracted = true) (ed : Editor α) :
-    Gen.Code.editorString cx ed = ed.string cx := by
-  first
-    | exact absurd h (by decide)
-    | (unfold Gen.Code.editorString Editor.string
-       simp only [editorIsSubEditor_regenerated cx (by decide), editorCommitAll_regenerated cx (by decide), pure_bind]
-       cases ed with
-       | root t o => rfl
-       | sub t o p a b => simp [Editor.isSub])
-
-/-! ### CombineColumnBlocks -/
-
-theorem block_line_nat (b : Block α) (k : Nat) (hk : k < b.lines.length) :
-    b.line (k : Int) = pure (b.lines.getD k []) := by
-  unfold Block.line
-  rw [if_neg (by omega)]
-  simp
-
-/-- first loop (state: leftColMaxWidth, i) -/
-def cc1Cond (left : Block α) (s : Int × Int) : R Bool := pure (decide (s.2 < (left.lines.length : Int)))
-def cc1Body (left : Block α) (s : Int × Int) : R (Int × Int) :=
-  left.line s.2 >>= fun l => pure ((if (gLen cx l : Int) > s.1 then (gLen cx l : Int) else s.1), s.2 + 1)
-
-theorem cc1_while (left : Block α) : ∀ (fuel k : Nat) (m : Int), k ≤ left.lines.length → left.lines.length + 1 ≤ fuel + k →
-    Go.whileM fuel (cc1Cond left) (cc1Body cx left) (m, (k : Int)) =
-      pure ((left.lines.drop k).foldl (fun m l => if (gLen cx l : Int) > m then (gLen cx l : Int) else m) m,
-        (left.lines.length : Int)) := by
-  intro fuel
-  induction fuel with
-  | zero => intro k m h1 h2; omega
-  | succ n ih =>
-    intro k m h1 h2
-    unfold Go.whileM
-    simp only [cc1Cond, pure_bind]
-    by_cases hlt : k < left.lines.length
-    · have h3 : ((k : Int) < (left.lines.length : Int)) := by omega
-      simp only [h3, decide_true, if_true, cc1Body, block_line_nat left k hlt, pure_bind]
-      rw [show ((k : Int) + 1) = ((k + 1 : Nat) : Int) by omega, ih (k + 1) _ (by omega) (by omega)]
-      rw [List.drop_eq_getElem_cons hlt, List.foldl_cons]
-      simp [List.getD_eq_getElem?_getD, hlt]
-    · have h3 : ¬ ((k : Int) < (left.lines.length : Int)) := by omega
-      have h4 : k = left.lines.length := by omega
-      simp [h4]
-
-
-/-- one combined row, as in the hand model -/
-def ccRow (left right : List (List α)) (total : Int) (i : Nat) : R (List α) := do
-  let l := left.getD i []
-  let lc : Int := if i < left.length then gLen cx l else 0
-  let r := right.getD i []
-  let spacer ← repeatStr [cx.sp] (total - lc)
-  pure (l ++ spacer ++ r)
-
-/-- second loop (state: combined, i) -/
-def cc2Cond (n : Int) (s : Block α × Int) : R Bool := pure (decide (s.2 < n))
-def cc2Body (left right : Block α) (total : Int) (s : Block α × Int) : R (Block α × Int) := do
-  let lp ← (if s.2 < (left.lines.length : Int) then
-      left.line s.2 >>= fun l => left.line s.2 >>= fun l' => pure (l, (gLen cx l' : Int))
-    else pure (([] : List α), (0 : Int)))
-  let r ← (if s.2 < (right.lines.length : Int) then right.line s.2 else pure [])
-  let spacer ← repeatStr [cx.sp] (total - lp.2)
-  pure (s.1.append (lp.1 ++ spacer ++ r), s.2 + 1)
-
-theorem cc2Body_nat (left right : Block α) (total : Int) (b : Block α) (k : Nat) :
-    cc2Body cx left right total (b, (k : Int)) =
-      ccRow cx left.lines right.lines total k >>= fun row => pure (b.append row, ((k + 1 : Nat) : Int)) := by
-  unfold cc2Body ccRow
-  by_cases hl : k < left.lines.length <;> by_cases hr : k < right.lines.length
-  all_goals
-    have hl' : ((k : Int) < (left.lines.length : Int)) ↔ k < left.lines.length := by omega
-    have hr' : ((k : Int) < (right.lines.length : Int)) ↔ k < right.lines.length := by omega
-    simp [hl, hr, hl', hr', block_line_nat]
-
-
-theorem cc2_while (left right : Block α) (total : Int) (n : Nat) : ∀ (fuel k : Nat) (b : Block α), k ≤ n → n + 1 ≤ fuel + k →
-    Go.whileM fuel (cc2Cond (n : Int)) (cc2Body cx left right total) (b, (k : Int)) =
-      (List.range' k (n - k)).mapM (ccRow cx left.lines right.lines total) >>= fun rows =>
-        pure (({ b with lines := b.lines ++ rows } : Block α), (n : Int)) := by
-  intro fuel
-  induction fuel with
-  | zero => intro k b h1 h2; omega
-  | succ f ih =>
-    intro k b h1 h2
-    unfold Go.whileM
-    simp only [cc2Cond, pure_bind]
-    by_cases hlt : k < n
-    · have h3 : ((k : Int) < (n : Int)) := by omega
-      simp only [h3, decide_true, if_true, cc2Body_nat, bind_assoc, pure_bind]
-      rw [show n - k = (n - (k + 1)) + 1 by omega, List.range'_succ, List.mapM_cons]
-      simp only [bind_assoc, pure_bind]
-      refine bind_congr (m := R) fun row => ?_
-      rw [ih (k + 1) _ (by omega) (by omega)]
-      refine bind_congr (m := R) fun rows => ?_
-      simp [Block.append]
-    · have h3 : ¬ ((k : Int) < (n : Int)) := by omega
-      have h4 : k = n := by omega
-      subst h4
-      simp [h3]
-
-
-theorem combineColumnBlocks_regenerated (h : Gen.Code.combineColumnBlocks_extracted = true)
-    (left right : Block α) (m : Int) :
-    Gen.Code.combineColumnBlocks cx left right m =
-      (fun ls => ({ lines := ls, sep := [], trailing := false } : Block α)) <$>
-        combineColumns cx left.lines right.lines m := by
-  first
-    | exact absurd h (by decide)
-    | (unfold Gen.Code.combineColumnBlocks combineColumns
-       simp only [blockLen_regenerated cx (by decide), blockLine_regenerated cx (by decide),
-         blockCharCount_regenerated cx (by decide), blockAppend_regenerated cx (by decide)]
-       go_norm
-       by_cases hE : left.lines = [] ∧ right.lines = []
-       · simp [hE]
-       · have hmax : (if (left.lines.length : Int) < (right.lines.length : Int) then (right.lines.length : Int)
-             else (left.lines.length : Int)) = ((max left.lines.length right.lines.length : Nat) : Int) := by
-           split <;> omega
-         have ht3 : (if left.lines = [] then (pure (decide (right.lines = [])) : R Bool) else pure false) = pure false := by
-           split
-           · rename_i hl; simp only [hl, true_and] at hE; simp [hE]
-           · rfl
-         simp only [ht3, hE, if_false, ite_pure, pure_bind, hmax, Int.toNat_natCast, Bool.false_eq_true]
-         refine Eq.trans (whileM_bind_congr (cond' := cc1Cond left) (body' := cc1Body cx left) rfl rfl ?_ ?_ (fun _ => rfl)) ?_
-         · intro s; rfl
-         · intro s; simp only [cc1Body, ite_pure, pure_bind]
-         · have k1 := cc1_while cx left (left.lines.length + 1) 0 0 (by omega) (by omega)
-           simp only [Int.natCast_zero, List.drop_zero] at k1
-           rw [k1]
-           simp only [pure_bind]
-           refine Eq.trans (whileM_bind_congr (cond' := cc2Cond ((max left.lines.length right.lines.length : Nat) : Int))
-             (body' := cc2Body cx left right
-               (left.lines.foldl (fun m l => if (gLen cx l : Int) > m then (gLen cx l : Int) else m) 0 + m))
-             rfl rfl ?_ ?_ (fun _ => rfl)) ?_
-           · intro s; rfl
-           · intro s; simp only [cc2Body, bind_assoc, pure_bind, bind_pure]
-           · have k2 := cc2_while cx left right
-               (left.lines.foldl (fun m l => if (gLen cx l : Int) > m then (gLen cx l : Int) else m) 0 + m)
-               (max left.lines.length right.lines.length) (max left.lines.length right.lines.length + 1) 0
-               ({ lines := [], sep := [], trailing := false }) (by omega) (by omega)
-             simp only [Int.natCast_zero] at k2
-             rw [k2]
-             simp only [bind_assoc, pure_bind, List.nil_append, Nat.sub_zero, List.range_eq_range', map_eq_pure_bind]
-             rfl)
-
-/-! ### WrapOpts, IndentOpts -/
-
-/-! ### ApplyOpts -/
-
-/-- monadic map with an `int` index starting at `k` -/
-def mapIdxFrom {β γ : Type} (g : Int → β → R γ) : Int → List β → R (List γ)
-  | _, [] => pure []
-  | k, x :: xs => g k x >>= fun y => mapIdxFrom g (k + 1) xs >>= fun ys => pure (y :: ys)
-
-theorem forRange_flatten {β γ : Type} (g : Int → β → R (List γ)) : ∀ (xs : List β) (k : Int) (acc : List γ),
-    Go.forRangeAux (fun i x acc => g i x >>= fun nl => pure (acc ++ nl)) k xs acc =
-      mapIdxFrom g k xs >>= fun outs => pure (acc ++ outs.flatten) := by
-  intro xs
-  induction xs with
-  | nil => intro k acc; simp [Go.forRangeAux, mapIdxFrom]
-  | cons x xs ih =>
-    intro k acc
-    simp only [Go.forRangeAux, mapIdxFrom, bind_assoc, pure_bind]
-    refine bind_congr (m := R) fun y => ?_
-    rw [ih]
-    simp [List.append_assoc]
-
-theorem mapM_range_getD {β γ : Type} (g : Int → β → R γ) (d : β) : ∀ (xs p : List β),
-    (List.range' p.length xs.length).mapM (fun (i : Nat) => g (i : Int) ((p ++ xs).getD i d)) = mapIdxFrom g (p.length : Int) xs := by
-  intro xs
-  induction xs with
-  | nil => intro p; simp [mapIdxFrom]
-  | cons x xs ih =>
-    intro p
-    simp only [List.length_cons, List.range'_succ, List.mapM_cons, mapIdxFrom]
-    have h1 : (p ++ x :: xs).getD p.length d = x := by simp [List.getD_eq_getElem?_getD]
-    rw [h1]
-    refine bind_congr (m := R) fun y => ?_
-    have := ih (p ++ [x])
-    simp only [List.length_append, List.length_cons, List.length_nil, List.append_assoc, List.cons_append,
-      List.nil_append, Nat.zero_add] at this
-    rw [this]
-    simp [Int.natCast_add]
-
-
-/-- Go's callback takes an `int` index and may panic: `applyOptsM` with the index cast -/
-theorem editorApplyOpts_regenerated (h : Gen.Code.editorApplyOpts_extracted = true) (ed : Editor α)
-    (op : Int → List α → R (List (List α))) (o : Options α) :
-    Gen.Code.editorApplyOpts cx ed op o = ed.applyOptsM cx (fun i l => op (i : Int) l) o := by
-  first
-    | exact absurd h (by decide)
-    | (unfold Gen.Code.editorApplyOpts Editor.applyOptsM
-       simp only [optionsWithDefaults_regenerated cx (by decide), editorLinesSep_regenerated cx (by decide),
-         editorWithOptions_regenerated cx (by decide), pure_bind]
-       go_norm
-       simp only [Go.forRangeM, ite_pure]
-       have hb : (fun (v_idx : Int) (v_line : List α) (v_applied : List (List α)) =>
-            op v_idx v_line >>= fun t3 => (pure (if t3 ≠ [] then v_applied ++ t3 else v_applied) : R _)) =
-           (fun i x acc => op i x >>= fun nl => pure (acc ++ nl)) := by
-         funext i x acc
-         refine bind_congr (m := R) fun nl => ?_
-         split <;> simp_all
-       rw [hb, forRange_flatten]
-       have hm := mapM_range_getD (fun i l => op i l) ([] : List α)
-         ((ed.withOpts (o.withDefaults cx)).linesSep (o.withDefaults cx).lineSep) []
-       simp only [List.length_nil, List.nil_append, Int.natCast_zero, ← List.range_eq_range'] at hm
-       rw [hm]
-       simp only [bind_assoc, pure_bind, List.nil_append]
-       first
-         | (refine bind_congr (m := R) fun outs => ?_
-            go_close)
-         | -- the variant with a fast path for a single line: `applied = op(0, lines[0])`
-           (generalize (ed.withOpts (o.withDefaults cx)).linesSep (o.withDefaults cx).lineSep = L
-            have hfast : (if ((L.length : Nat) : Int) = 1 then
-                  (Go.idx L 0 >>= fun t4 => op 0 t4 >>= fun t5 => (pure t5 : R _))
-                else (mapIdxFrom op 0 L >>= fun outs => (pure outs.flatten : R _))) =
-                (mapIdxFrom op 0 L >>= fun outs => (pure outs.flatten : R _)) := by
-              split
-              · rename_i h1
-                match L, h1 with
-                | [l], _ => simp [Go.idx, mapIdxFrom]
-              · rfl
-            rw [hfast]
-            simp only [bind_assoc, pure_bind]
-            refine bind_congr (m := R) fun outs => ?_
-            go_close))
-
-/-! ### JustifyLine -/
-
-/-- Go's `fullList`: the words interleaved with one string of `1 + extra[g]` spaces per gap -/
-def jlFull : List (List α) → List Nat → List (List α)
-  | [], _ => []
-  | [w], _ => [w]
-  | w :: w' :: ws, e :: es => w :: List.replicate (1 + e) cx.sp :: jlFull (w' :: ws) es
-  | w :: w' :: ws, [] => w :: [cx.sp] :: jlFull (w' :: ws) []
-
-theorem jlFull_flatten : ∀ (ws : List (List α)) (ex : List Nat), (jlFull cx ws ex).flatten = interleave cx ws ex := by
-  intro ws
-  induction ws with
-  | nil => intro ex; simp [jlFull, interleave]
-  | cons w ws ih =>
-    intro ex
-    cases ws with
-    | nil => simp [jlFull, interleave]
-    | cons w' ws' =>
-      cases ex with
-      | nil => simp [jlFull, interleave, ih]
-      | cons e es => simp [jlFull, interleave, ih]
-
-theorem jlFull_length : ∀ (ws : List (List α)) (ex : List Nat), ws ≠ [] → (jlFull cx ws ex).length = 2 * ws.length - 1 := by
-  intro ws
-  induction ws with
-  | nil => intro ex h; exact absurd rfl h
-  | cons w ws ih =>
-    intro ex _
-    cases ws with
-    | nil => simp [jlFull]
-    | cons w' ws' =>
-      cases ex with
-      | nil => simp [jlFull, ih [] (by simp)]; omega
-      | cons e es => simp [jlFull, ih es (by simp)]; omega
-
-/-- the gap string at position `2g+1` and its update -/
-theorem jlFull_gap : ∀ (ws : List (List α)) (ex : List Nat) (g : Nat), g + 1 < ws.length → ex.length + 1 = ws.length →
-    (jlFull cx ws ex)[2 * g + 1]? = some (List.replicate (1 + ex.getD g 0) cx.sp) ∧
-    (jlFull cx ws ex).set (2 * g + 1) (List.replicate (1 + ex.getD g 0) cx.sp ++ [cx.sp]) =
-      jlFull cx ws (ex.modify g (· + 1)) := by
-  intro ws
-  induction ws with
-  | nil => intro ex g h; simp at h
-  | cons w ws ih =>
-    intro ex g hg hl
-    cases ws with
-    | nil => simp at hg
-    | cons w' ws' =>
-      cases ex with
-      | nil => simp at hl
-      | cons e es =>
-        cases g with
-        | zero =>
-          simp [jlFull, List.replicate_succ']
-          rw [show 1 + (e + 1) = (1 + e) + 1 by omega, List.replicate_succ']
-        | succ k =>
-          have := ih es k (by simpa using hg) (by simpa using hl)
-          simp only [jlFull]
-          have e1 : 2 * (k + 1) + 1 = (2 * k + 1) + 1 + 1 := by omega
-          rw [e1]
-          simp only [List.getElem?_cons_succ, List.set_cons_succ, List.getD_cons_succ, List.modify_succ_cons, jlFull]
-          exact ⟨this.1, by rw [this.2]⟩
-
-
-theorem jl_step (ws : List (List α)) (ex : List Nat) (hl : ex.length + 1 = ws.length) (g : Int) :
-    (Go.idx (jlFull cx ws ex) (g * 2 + 1) >>= fun t => Go.sliceSet (jlFull cx ws ex) (g * 2 + 1) (t ++ [cx.sp])) =
-      if g < 0 ∨ g ≥ ((ws.length : Int) - 1) then throw .index
-      else pure (jlFull cx ws (ex.modify g.toNat (· + 1))) := by
-  have hne : ws ≠ [] := by intro h; simp [h] at hl
-  have hlen := jlFull_length cx ws ex hne
-  by_cases hr : g < 0 ∨ g ≥ ((ws.length : Int) - 1)
-  · rw [if_pos hr]
-    unfold Go.idx
-    rw [dif_neg (by omega)]
-    rfl
-  · rw [if_neg hr]
-    have hk : g = ((g.toNat : Nat) : Int) := by omega
-    have hk2 : (g * 2 + 1).toNat = 2 * g.toNat + 1 := by omega
-    have hg := jlFull_gap cx ws ex g.toNat (by omega) hl
-    unfold Go.idx Go.sliceSet
-    rw [dif_pos (by omega)]
-    simp only [pure_bind]
-    rw [if_pos (by omega)]
-    have h1 : (jlFull cx ws ex)[(g * 2 + 1).toNat]'(by omega) = List.replicate (1 + ex.getD g.toNat 0) cx.sp := by
-      have := hg.1
-      rw [← hk2, List.getElem?_eq_getElem (by omega)] at this
-      exact Option.some.inj this
-    rw [h1, hk2, hg.2]
-
-
-/-- the distribution loop of JustifyLine over the model's primitives (state: fullList, fromRight, spaceIdx, i) -/
-def jlCond (spacesToAdd : Int) (s : List (List α) × Bool × Int × Int) : R Bool := pure (decide (s.2.2.2 < spacesToAdd))
-def jlBody (numGaps odd : Int) (s : List (List α) × Bool × Int × Int) : R (List (List α) × Bool × Int × Int) :=
-  let g : Int := if s.2.1 then (numGaps - odd) - s.2.2.1 else s.2.2.1
-  (Go.idx s.1 (g * 2 + 1) >>= fun t => Go.sliceSet s.1 (g * 2 + 1) (t ++ [cx.sp])) >>= fun fl =>
-    pure (fl, !s.2.1, (if s.2.2.1 + 1 ≥ numGaps then 0 else s.2.2.1 + 1), s.2.2.2 + 1)
-
-theorem distribute_eq_while (ws : List (List α)) (odd spacesToAdd : Int) :
-    ∀ (fuel n : Nat) (ex : List Nat) (fromRight : Bool) (spaceIdx i : Int),
-    ex.length + 1 = ws.length → i + n = spacesToAdd → n + 1 ≤ fuel →
-    (jlFull cx ws ·) <$> distribute ((ws.length : Int) - 1) odd n spaceIdx fromRight ex =
-      (fun s => s.1) <$> Go.whileM fuel (jlCond spacesToAdd) (jlBody cx ((ws.length : Int) - 1) odd)
-        (jlFull cx ws ex, fromRight, spaceIdx, i) := by
-  intro fuel
-  induction fuel with
-  | zero => intro n ex fr si i _ _ h; omega
-  | succ f ih =>
-    intro n ex fr si i hl hi hf
-    unfold Go.whileM
-    simp only [jlCond, pure_bind]
-    cases n with
-    | zero =>
-      have : ¬ (i < spacesToAdd) := by omega
-      simp [this, distribute]
-    | succ m =>
-      have : (i < spacesToAdd) := by omega
-      simp only [this, decide_true, if_true, jlBody, jl_step cx ws _ hl, distribute]
-      generalize (if fr = true then (ws.length : Int) - 1 - odd - si else si) = g
-      split
-      · rfl
-      · simp only [pure_bind]
-        exact ih m _ (!fr) _ (i + 1) (by simp [hl]) (by omega) (by omega)
-
-
-theorem jl_build (N : Int) : ∀ (xs : List (List α)) (k : Int) (acc : List (List α)), k + xs.length = N →
-    Go.forRangeAux (fun (i : Int) (w : List α) (acc : List (List α)) =>
-        (pure (if i + 1 < N then acc ++ [w] ++ [[cx.sp]] else acc ++ [w]) : R _)) k xs acc =
-      pure (acc ++ jlFull cx xs (List.replicate (xs.length - 1) 0)) := by
-  intro xs
-  induction xs with
-  | nil => intro k acc _; simp [Go.forRangeAux, jlFull]
-  | cons w ws ih =>
-    intro k acc hk
-    cases ws with
-    | nil =>
-      have : ¬ (k + 1 < N) := by simp at hk; omega
-      simp [Go.forRangeAux, jlFull, this]
-    | cons w' r =>
-      have : (k + 1 < N) := by simp at hk; omega
-      rw [Go.forRangeAux, pure_bind, if_pos this, ih (k + 1) _ (by simp at hk ⊢; omega)]
-      simp [jlFull, List.replicate_succ]
-
-theorem intercalate_nil {β : Type} (l : List (List β)) : List.intercalate [] l = l.flatten := by
-  induction l with
-  | nil => rfl
-  | cons a t ih =>
-    cases t with
-    | nil => simp [List.intercalate]
-    | cons b r =>
-      simp only [List.intercalate, List.intersperse_cons_cons, List.flatten_cons, List.nil_append] at ih ⊢
-      rw [ih]
-
-theorem justifyLine_regenerated (h : Gen.Code.justifyLine_extracted = true) (text : List α) (width : Int) :
-    Gen.Code.justifyLine cx text width = justifyLine cx text width := by
-  first
-    | exact absurd h (by decide)
-    | (unfold Gen.Code.justifyLine justifyLine
-       simp only [collapseSpace_regenerated cx (by decide)]
-       go_norm
-       refine bind_congr (m := R) fun t => ?_
-       split
-       · rfl
-       · split
-         · rfl
-         · rename_i hw hg
-           simp only [Go.forRangeM, ite_pure, pure_bind]
-           have hlen : 2 ≤ (splitOn t [cx.sp]).length := by omega
-           rw [jl_build cx ((splitOn t [cx.sp]).length : Int) (splitOn t [cx.sp]) 0 [] (by omega)]
-           simp only [pure_bind, List.nil_append]
-           have hodd : (if ((((splitOn t [cx.sp]).length : Int) - 1) % 2 == 0) = true then (0 : Int) else 1) =
-               (if (((splitOn t [cx.sp]).length : Int) - 1).tmod 2 = 0 then (0 : Int) else 1) := by
-             rw [Int.tmod_eq_emod_of_nonneg (by omega)]
-             simp
-           have hrep : (((splitOn t [cx.sp]).length : Int) - 1).toNat = (splitOn t [cx.sp]).length - 1 := by omega
-           have hR : ∀ m : R (List Nat), (m >>= fun extra => (pure (interleave cx (splitOn t [cx.sp]) extra) : R _)) =
-               ((jlFull cx (splitOn t [cx.sp]) ·) <$> m) >>= fun fl => pure fl.flatten := by
-             intro m; simp only [map_eq_pure_bind, bind_assoc, pure_bind, jlFull_flatten]
-           rw [hR, hodd, hrep, distribute_eq_while cx (splitOn t [cx.sp]) _ (width - (gLen cx t : Int))
-             ((width - (gLen cx t : Int)).toNat + 1) _ _ false 0 0 (by simp; omega) (by omega) (by omega)]
-           simp only [map_eq_pure_bind, bind_assoc, pure_bind]
-           refine whileM_bind_congr rfl rfl ?_ ?_ ?_
-           · intro s; rfl
-           · intro s; simp only [jlBody, bind_assoc, pure_bind]; split <;> rfl
-           · intro s; simp [joinWith, intercalate_nil])
-
-/-! ### applyGParagraphsOpts -/
-
-theorem idx_append_cons {β : Type} (p : List β) (x : β) (r : List β) :
-    Go.idx (p ++ x :: r) (p.length : Int) = pure x := by
-  unfold Go.idx
-  rw [dif_pos (by simp)]
-  simp
-
-theorem idx_append_cons_succ {β : Type} (p : List β) (x y : β) (r : List β) :
-    Go.idx (p ++ x :: y :: r) ((p.length : Int) + 1) = pure y := by
-  have := idx_append_cons (p ++ [x]) y r
-  simpa using this
-
-theorem sliceSet_append_cons_succ {β : Type} (p : List β) (x y v : β) (r : List β) :
-    Go.sliceSet (p ++ x :: y :: r) ((p.length : Int) + 1) v = pure (p ++ x :: v :: r) := by
-  unfold Go.sliceSet
-  have h : ((p.length : Int) + 1).toNat = p.length + 1 := by omega
-  rw [if_pos (by simp; omega), h]
-  simp [List.set_append]
-
-theorem byteSlice_drop_prefix (hpos : ∀ a, 0 < cx.blen a) (p s : List α) (h : p.isPrefixOf s = true) :
-    byteSlice cx s (byteLen cx p) (byteLen cx s) = pure (s.drop p.length) := by
-  obtain ⟨t, rfl⟩ := List.isPrefixOf_iff_prefix.mp h
-  have := byteSlice_take_drop (cx := cx) hpos (p ++ t) p.length (p ++ t).length (by simp) (Nat.le_refl _)
-  rw [List.take_length] at this
-  simp at this
-  simp only [List.drop_left']
-  exact this
-
-
-/-- the paragraph loop over the model's primitives (state: paragraphs, transformed) -/
-def gpBody (op : Int → List α → List α → List α → R (List (List α))) (lineSep prevSuffix nextPrefix : List α) (ambig : Bool)
-    (i : Int) (_x : List α) (s : List (List α) × List (List α)) : R (List (List α) × List (List α)) :=
-  Go.idx s.1 i >>= fun para =>
-  (if i ≠ (s.1.length : Int) - 1 then
-      (if ambig = true then
-        Go.idx s.1 (i + 1) >>= fun nxt =>
-          if lineSep.isPrefixOf nxt = true then
-            Go.idx s.1 (i + 1) >>= fun nxt2 =>
-            byteSlice cx nxt2 (byteLen cx lineSep) (byteLen cx nxt2) >>= fun nxt' =>
-              Go.sliceSet s.1 (i + 1) nxt' >>= fun ps => pure (prevSuffix, ps, para ++ lineSep)
-          else pure (prevSuffix, s.1, para)
-      else pure (prevSuffix, s.1, para))
-    else pure (([] : List α), s.1, para)) >>= fun r =>
-  op i r.2.2 (if i ≠ 0 then nextPrefix else []) r.1 >>= fun out => pure (r.2.1, s.2 ++ out)
-
-theorem paraLoop_eq_range (hpos : ∀ a, 0 < cx.blen a) (op : Int → List α → List α → List α → R (List (List α)))
-    (lineSep prevSuffix nextPrefix : List α) (ambig : Bool) :
-    ∀ (rest : List (List α)) (cur : List α) (done acc xs : List (List α)), xs.length = rest.length + 1 →
-      (acc ++ ·) <$> paraLoop (fun i => op (i : Int)) lineSep prevSuffix nextPrefix ambig done.length cur rest =
-        (·.2) <$> Go.forRangeAux (gpBody cx op lineSep prevSuffix nextPrefix ambig) (done.length : Int) xs
-          (done ++ cur :: rest, acc) := by
-  intro rest
-  induction rest with
-  | nil =>
-    intro cur done acc xs hx
-    match xs, hx with
-    | [x], _ =>
-      simp only [Go.forRangeAux, gpBody, idx_append_cons, pure_bind, paraLoop]
-      have h1 : ¬ ((done.length : Int) ≠ (((done ++ [cur]).length : Nat) : Int) - 1) := by simp
-      simp only [h1, if_false, pure_bind, bind_assoc, map_bind]
-      have h2 : ((done.length != 0) = true) ↔ ((done.length : Int) ≠ 0) := by simp
-      simp only [h2]
-      refine bind_congr (m := R) fun out => ?_
-      rfl
-  | cons nxt rest' ih =>
-    intro cur done acc xs hx
-    match xs, hx with
-    | x :: xs', hx' =>
-      simp only [Go.forRangeAux, gpBody, idx_append_cons, idx_append_cons_succ, sliceSet_append_cons_succ, pure_bind, paraLoop]
-      have h1 : ((done.length : Int) ≠ (((done ++ cur :: nxt :: rest').length : Nat) : Int) - 1) := by
-        simp; omega
-      have h2 : ((done.length != 0) = true) ↔ ((done.length : Int) ≠ 0) := by simp
-      simp only [h2]
-      rw [if_pos h1]
-      have key : ∀ (nx : List α) (out : List (List α)),
-          (paraLoop (fun i => op (i : Int)) lineSep prevSuffix nextPrefix ambig (done.length + 1) nx rest'
-            >>= fun more => (fun x => acc ++ x) <$> (pure (out ++ more) : R _)) =
-          (·.2) <$> Go.forRangeAux (gpBody cx op lineSep prevSuffix nextPrefix ambig) ((done.length : Int) + 1) xs'
-            (done ++ cur :: nx :: rest', acc ++ out) := by
-        intro nx out
-        have := ih nx (done ++ [cur]) (acc ++ out) xs' (by simpa using hx')
-        simp only [List.length_append, List.length_cons, List.length_nil, Nat.zero_add, Int.natCast_add, Int.cast_ofNat_Int,
-          List.append_assoc, List.cons_append, List.nil_append] at this
-        rw [← this]
-        simp only [map_eq_pure_bind, bind_assoc, pure_bind, List.append_assoc]
-      cases ambig
-      · simp only [Bool.false_and, Bool.false_eq_true, if_false, pure_bind, bind_assoc, map_bind]
-        refine bind_congr (m := R) fun out => ?_
-        exact key nxt out
-      · by_cases hp : lineSep.isPrefixOf nxt = true
-        · simp only [Bool.true_and, hp, if_true, byteSlice_drop_prefix cx hpos lineSep nxt hp, pure_bind, bind_assoc, map_bind]
-          refine bind_congr (m := R) fun out => ?_
-          exact key _ out
-        · simp only [Bool.true_and, hp, if_false, if_true, pure_bind, bind_assoc, map_bind, Bool.false_eq_true]
-          refine bind_congr (m := R) fun out => ?_
-          exact key nxt out
-
-
-/-- Needs: the built-in default separators are non-empty (`parts[0]`, `paragraphs` never empty) and every
-atom has a positive UTF-8 length (the byte slice `paragraphs[idx+1][len(lineSep):]` is the rune-level `drop`). -/
-theorem editorApplyGParagraphsOpts_regenerated (h : Gen.Code.editorApplyGParagraphsOpts_extracted = true)
-    (hd : DefaultsOk cx) (hpos : ∀ a, 0 < cx.blen a) (ed : Editor α)
-    (op : Int → List α → List α → List α → R (List (List α))) (o : Options α) :
-    Gen.Code.editorApplyGParagraphsOpts cx ed op o = ed.applyParasM cx (fun i => op (i : Int)) o := by
-  first
-    | exact absurd h (by decide)
-    | (unfold Gen.Code.editorApplyGParagraphsOpts Editor.applyParasM
-       simp only [optionsWithDefaults_regenerated cx (by decide)]
-       go_norm
-       have hls : (o.withDefaults cx).lineSep ≠ [] := by
-         rw [(withDefaults_fields cx o).1]; split
-         · exact hd.1
-         · simp_all
-       have hps : (o.withDefaults cx).paraSep ≠ [] := by
-         rw [(withDefaults_fields cx o).2.2.1]; split
-         · exact hd.2.2
-         · simp_all
-       generalize o.withDefaults cx = od at *
-       have hparts := splitOn_ne_nil' od.paraSep od.lineSep hls
-       have hparas := splitOn_ne_nil' ed.text od.paraSep hps
-       have h0 : Go.idx (splitOn od.paraSep od.lineSep) 0 = pure ((splitOn od.paraSep od.lineSep).headD []) := by
-         cases hsp : splitOn od.paraSep od.lineSep with
-         | nil => exact absurd hsp hparts
-         | cons a t => simp [Go.idx]
-       have hl : Go.idx (splitOn od.paraSep od.lineSep) (((splitOn od.paraSep od.lineSep).length : Int) - 1) =
-           pure ((splitOn od.paraSep od.lineSep).getLastD []) := by
-         rw [idx_last _ hparts, List.getLastD_eq_getLast?, List.getLast?_eq_some_getLast hparts]
-         rfl
-       simp only [h0, hl, pure_bind, bind_pure, ite_pure, Go.forRangeM]
-       cases hsp : splitOn ed.text od.paraSep with
-       | nil => exact absurd hsp hparas
-       | cons p ps =>
-         simp only []
-         have key := paraLoop_eq_range cx hpos op od.lineSep ((splitOn od.paraSep od.lineSep).headD [])
-           (if (splitOn od.paraSep od.lineSep).length > 1 then (splitOn od.paraSep od.lineSep).getLastD [] else [])
-           (od.paraSep ++ od.lineSep == od.lineSep ++ od.paraSep) ps p [] [] (p :: ps) rfl
-         simp only [List.length_nil, Int.natCast_zero, List.nil_append] at key
-         have e1 : ∀ (m : R (List (List α))) (k : List (List α) → R (Editor α)),
-             m >>= k = ((fun x => x) <$> m) >>= k := by
-           intro m k; simp
-         rw [e1 (paraLoop _ _ _ _ _ _ _ _), key]
-         simp only [map_eq_pure_bind, bind_assoc, pure_bind]
-         congr 1
-         refine congrArg (fun b => Go.forRangeAux b (0 : Int) (p :: ps) (p :: ps, ([] : List (List α)))) ?_
-         funext i x s
-         have hc : (((splitOn od.paraSep od.lineSep).length : Int) > 1) ↔ ((splitOn od.paraSep od.lineSep).length > 1) := by omega
-         have hfin : ∀ (a : List (List α)) (t11 : List (List α)),
-             (pure (a, if t11 ≠ [] then s.2 ++ t11 else s.2) : R _) = pure (a, s.2 ++ t11) := by
-           intro a t11; split <;> simp_all
-         simp only [gpBody, hc, beq_iff_eq, hfin]
-         refine bind_congr (m := R) fun para => ?_
-         by_cases h1 : i ≠ (s.1.length : Int) - 1
-         · simp only [h1, if_true, ne_eq, not_false_eq_true, bind_assoc, pure_bind]
-           by_cases h2 : od.paraSep ++ od.lineSep = od.lineSep ++ od.paraSep
-           · simp only [h2, if_true, bind_assoc, pure_bind, decide_true]
-             refine bind_congr (m := R) fun nxt => ?_
-             by_cases h3 : od.lineSep.isPrefixOf nxt = true
-             · simp only [h3, if_true, bind_assoc, pure_bind]
-             · simp only [h3, if_false, bind_assoc, pure_bind, Bool.false_eq_true]
-           · simp only [h2, if_false, bind_assoc, pure_bind, decide_false, Bool.false_eq_true]
-         · simp only [h1, if_false, bind_assoc, pure_bind])
-
-
-theorem editorApplyParagraphsOpts_regenerated (h : Gen.Code.editorApplyParagraphsOpts_extracted = true)
-    (hd : DefaultsOk cx) (hpos : ∀ a, 0 < cx.blen a) (ed : Editor α)
-    (op : Int → List α → List α → List α → R (List (List α))) (o : Options α) :
-    Gen.Code.editorApplyParagraphsOpts cx ed op o = ed.applyParasM cx (fun i => op (i : Int)) o := by
-  first
-    | exact absurd h (by decide)
-    | (unfold Gen.Code.editorApplyParagraphsOpts
-       simp only [editorApplyGParagraphsOpts_regenerated cx (by decide) hd hpos, bind_pure])
-
-/-! ### WrapOpts, IndentOpts -/
-
-theorem editorWrapOpts_regenerated (h : Gen.Code.editorWrapOpts_extracted = true)
-    (hd : DefaultsOk cx) (hpos : ∀ a, 0 < cx.blen a) (ed : Editor α) (width : Int)
-    (o : Options α) : Gen.Code.editorWrapOpts cx ed width o = ed.wrapOpts cx width o := by
-  first
-    | exact absurd h (by decide)
-    | (unfold Gen.Code.editorWrapOpts Editor.wrapOpts
-       simp only [optionsWithDefaults_regenerated cx (by decide), wrap_regenerated cx (by decide),
-         blockJoin_regenerated cx (by decide), editorApplyGParagraphsOpts_regenerated cx (by decide) hd hpos]
-       go_norm
-       simp only [ite_pure, pure_bind, map_eq_pure_bind, bind_assoc]
-       split
-       · simp only [bind_pure]
-         all_goals
-           (congr 1
-            all_goals
-              (funext i para pre suf
-               simp only [Go.gsLen, Go.gsSub, Go.gsAdd, Go.gemRepeatStr, Go.stringsHasSuffix, ite_pure, pure_bind, bind_assoc,
-                 map_eq_pure_bind, List.append_assoc]
-               refine bind_congr (m := R) fun ls => ?_
-               go_close))
-       · refine bind_congr (m := R) fun ls => ?_
-         go_close)
-
-
-theorem editorIndentOpts_regenerated (h : Gen.Code.editorIndentOpts_extracted = true)
-    (hd : DefaultsOk cx) (hpos : ∀ a, 0 < cx.blen a) (ed : Editor α) (level : Int)
-    (o : Options α) : Gen.Code.editorIndentOpts cx ed level o = ed.indentOpts cx level o := by
-  first
-    | exact absurd h (by decide)
-    | (unfold Gen.Code.editorIndentOpts Editor.indentOpts
-       simp only [optionsWithDefaults_regenerated cx (by decide), editorApplyOpts_regenerated cx (by decide),
-         editorApplyParagraphsOpts_regenerated cx (by decide) hd hpos, edit_regenerated cx (by decide),
-         editorWithOptions_regenerated cx (by decide), editorString_regenerated cx (by decide), pure_bind]
-       go_norm
-       split
-       · rfl
-       · refine bind_congr (m := R) fun indent => ?_
-         split
-         · simp only [bind_pure, Go.edApplyParagraphsOpts, Editor.applyOpts, Go.edit, Editor.withOpts]
-           all_goals rfl
-         · simp only [bind_pure, Editor.applyOpts]
-           all_goals rfl)
-
-
-/-! ### buildTable -/
-
-/-- `for j := j0; j < w; j++ { bar = bar.Add(h) }` -/
-theorem repeat_loop (h : List α) (w : Int) : ∀ (fuel n : Nat) (bar : List α) (j : Int),
-    n = (w - j).toNat → n + 1 ≤ fuel →
-    Go.whileM fuel (fun (s : List α × Int) => (pure (decide (s.2 < w)) : R Bool))
-        (fun (s : List α × Int) => (pure (s.1 ++ h, s.2 + 1) : R _)) (bar, j) =
-      pure (bar ++ (List.replicate n h).flatten, j + n) := by
-  intro fuel
-  induction fuel with
-  | zero => intro n bar j _ hf; omega
-  | succ f ih =>
-    intro n bar j hn hf
-    unfold Go.whileM
-    simp only [pure_bind]
-    cases n with
-    | zero =>
-      have : ¬ (j < w) := by omega
-      simp [this]
-    | succ m =>
-      have : j < w := by omega
-      simp only [this, decide_true, if_true]
-      have e : j + ((m + 1 : Nat) : Int) = (j + 1) + (m : Int) := by omega
-      rw [ih m _ _ (by omega) (by omega), e]
-      simp [List.replicate_succ, List.append_assoc]
-
-theorem gRepeat_eq (h : List α) (w : Int) : gRepeat h w = (List.replicate w.toNat h).flatten := rfl
-
-/-- a range loop whose body is a pure step depending on the index only -/
-theorem forRange_fold {β σ : Type} (data : List β) (step : σ → Nat → σ) (body : Int → β → σ → R σ)
-    (hbody : ∀ (k : Nat) (x : β) (s : σ), k < data.length → body (k : Int) x s = pure (step s k)) :
-    ∀ (xs pre : List β) (s : σ), data = pre ++ xs →
-      Go.forRangeAux body (pre.length : Int) xs s = pure ((List.range' pre.length xs.length).foldl step s) := by
-  intro xs
-  induction xs with
-  | nil => intro pre s _; rfl
-  | cons x xs ih =>
-    intro pre s hc
-    have hk : pre.length < data.length := by rw [hc]; simp
-    rw [Go.forRangeAux, hbody pre.length x s hk, pure_bind]
-    have := ih (pre ++ [x]) (step s pre.length) (by simp [hc])
-    simp only [List.length_append, List.length_cons, List.length_nil, Nat.zero_add, Int.natCast_add, Int.cast_ofNat_Int] at this
-    rw [this]
-    simp [List.range'_succ]
-
-theorem forRangeM_fold {β σ : Type} (data : List β) (step : σ → Nat → σ) (body : Int → β → σ → R σ)
-    (hbody : ∀ (k : Nat) (x : β) (s : σ), k < data.length → body (k : Int) x s = pure (step s k)) (s : σ) :
-    Go.forRangeM data body s = pure ((List.range data.length).foldl step s) := by
-  have := forRange_fold data step body hbody data [] s rfl
-  simpa [Go.forRangeM, List.range_eq_range'] using this
-
-/-- a counting loop `for k := k0; k < N; k++ { s = step s k }` (state: s, k) -/
-theorem while_count2 {σ : Type} (N : Int) (step : σ → Nat → σ) (cond : σ × Int → R Bool) (body : σ × Int → R (σ × Int))
-    (hc : ∀ (s : σ) (k : Nat), cond (s, (k : Int)) = pure (decide ((k : Int) < N)))
-    (hb : ∀ (s : σ) (k : Nat), (k : Int) < N → body (s, (k : Int)) = pure (step s k, (k : Int) + 1)) :
-    ∀ (fuel k : Nat) (s : σ), (k : Int) ≤ max N 0 → N.toNat + 1 ≤ fuel + k →
-      Go.whileM fuel cond body (s, (k : Int)) =
-        pure ((List.range' k (N.toNat - k)).foldl step s, ((max N.toNat k : Nat) : Int)) := by
-  intro fuel
-  induction fuel with
-  | zero => intro k s h1 h2; omega
-  | succ f ih =>
-    intro k s h1 h2
-    unfold Go.whileM
-    rw [hc]
-    simp only [pure_bind]
-    by_cases hlt : (k : Int) < N
-    · simp only [hlt, decide_true, if_true, hb s k hlt, pure_bind]
-      have := ih (k + 1) (step s k) (by omega) (by omega)
-      simp only [Int.natCast_add, Int.cast_ofNat_Int] at this
-      rw [this]
-      have e : N.toNat - k = (N.toNat - (k + 1)) + 1 := by omega
-      rw [e, List.range'_succ, List.foldl_cons]
-      congr 2
-      omega
-    · have e : N.toNat - k = 0 := by omega
-      simp only [hlt, decide_false, Bool.false_eq_true, if_false, e, List.range'_zero, List.foldl_nil]
-      congr 2
-      omega
-
-/-- the same with a two-component state (state: a, b, k) -/
-theorem while_count3 {A B : Type} (N : Int) (step : A × B → Nat → A × B) (cond : A × B × Int → R Bool)
-    (body : A × B × Int → R (A × B × Int))
-    (hc : ∀ (a : A) (b : B) (k : Nat), cond (a, b, (k : Int)) = pure (decide ((k : Int) < N)))
-    (hb : ∀ (a : A) (b : B) (k : Nat), (k : Int) < N →
-      body (a, b, (k : Int)) = pure ((step (a, b) k).1, (step (a, b) k).2, (k : Int) + 1)) :
-    ∀ (fuel k : Nat) (a : A) (b : B), (k : Int) ≤ max N 0 → N.toNat + 1 ≤ fuel + k →
-      Go.whileM fuel cond body (a, b, (k : Int)) =
-        pure (((List.range' k (N.toNat - k)).foldl step (a, b)).1, ((List.range' k (N.toNat - k)).foldl step (a, b)).2,
-          ((max N.toNat k : Nat) : Int)) := by
-  intro fuel
-  induction fuel with
-  | zero => intro k a b h1 h2; omega
-  | succ f ih =>
-    intro k a b h1 h2
-    unfold Go.whileM
-    rw [hc]
-    simp only [pure_bind]
-    by_cases hlt : (k : Int) < N
-    · simp only [hlt, decide_true, if_true, hb a b k hlt, pure_bind]
-      have := ih (k + 1) (step (a, b) k).1 (step (a, b) k).2 (by omega) (by omega)
-      simp only [Int.natCast_add, Int.cast_ofNat_Int] at this
-      rw [this]
-      have e : N.toNat - k = (N.toNat - (k + 1)) + 1 := by omega
-      rw [e, List.range'_succ, List.foldl_cons]
-      have e2 : max N.toNat (k + 1) = max N.toNat k := by omega
-      rw [e2]
-    · have e : N.toNat - k = 0 := by omega
-      have e2 : max N.toNat k = k := by omega
-      simp only [hlt, decide_false, Bool.false_eq_true, if_false, e, List.range'_zero, List.foldl_nil, e2]
-
-theorem foldl_range_getD {β σ : Type} (f : σ → β → σ) (d : β) : ∀ (l : List β) (pre : List β) (s : σ),
-    (List.range' pre.length l.length).foldl (fun s k => f s ((pre ++ l).getD k d)) s = l.foldl f s := by
-  intro l
-  induction l with
-  | nil => intro pre s; rfl
-  | cons x xs ih =>
-    intro pre s
-    simp only [List.length_cons, List.range'_succ, List.foldl_cons]
-    have h1 : (pre ++ x :: xs).getD pre.length d = x := by simp [List.getD_eq_getElem?_getD]
-    rw [h1]
-    have := ih (pre ++ [x]) (f s x)
-    simp only [List.length_append, List.length_cons, List.length_nil, Nat.zero_add, List.append_assoc, List.cons_append,
-      List.nil_append] at this
-    exact this
-
-theorem while_count2_zero {σ : Type} (N : Int) (step : σ → Nat → σ) (cond : σ × Int → R Bool) (body : σ × Int → R (σ × Int))
-    (hc : ∀ (s : σ) (k : Nat), cond (s, (k : Int)) = pure (decide ((k : Int) < N)))
-    (hb : ∀ (s : σ) (k : Nat), (k : Int) < N → body (s, (k : Int)) = pure (step s k, (k : Int) + 1))
-    (fuel : Nat) (s : σ) (hf : N.toNat + 1 ≤ fuel) :
-    Go.whileM fuel cond body (s, 0) = pure ((List.range N.toNat).foldl step s, (N.toNat : Int)) := by
-  have := while_count2 N step cond body hc hb fuel 0 s (by omega) (by omega)
-  simpa [List.range_eq_range'] using this
-
-theorem while_count3_zero {A B : Type} (N : Int) (step : A × B → Nat → A × B) (cond : A × B × Int → R Bool)
-    (body : A × B × Int → R (A × B × Int))
-    (hc : ∀ (a : A) (b : B) (k : Nat), cond (a, b, (k : Int)) = pure (decide ((k : Int) < N)))
-    (hb : ∀ (a : A) (b : B) (k : Nat), (k : Int) < N →
-      body (a, b, (k : Int)) = pure ((step (a, b) k).1, (step (a, b) k).2, (k : Int) + 1))
-    (fuel : Nat) (a : A) (b : B) (hf : N.toNat + 1 ≤ fuel) :
-    Go.whileM fuel cond body (a, b, 0) =
-      pure (((List.range N.toNat).foldl step (a, b)).1, ((List.range N.toNat).foldl step (a, b)).2, (N.toNat : Int)) := by
-  have := while_count3 N step cond body hc hb fuel 0 a b (by omega) (by omega)
-  simpa [List.range_eq_range'] using this
-
-theorem foldl_const_append (h : List α) : ∀ (l : List Nat) (s : List α),
-    l.foldl (fun bar _ => bar ++ h) s = s ++ (List.replicate l.length h).flatten := by
-  intro l
-  induction l with
-  | nil => intro s; simp
-  | cons x xs ih => intro s; simp [ih, List.replicate_succ, List.append_assoc]
-
-theorem foldl_pair_snd {A B C : Type} (g : C → A) (f : B → C → B) : ∀ (l : List C) (a : A) (b : B),
-    (l.foldl (fun (p : A × B) c => (g c, f p.2 c)) (a, b)).2 = l.foldl f b := by
-  intro l
-  induction l with
-  | nil => intro a b; rfl
-  | cons x xs ih => intro a b; simp only [List.foldl_cons]; exact ih _ _
-
-theorem foldl_block_lines (f : List (List α) → Nat → List (List α)) : ∀ (l : List Nat) (blk : Block α),
-    l.foldl (fun b k => ({ b with lines := f b.lines k } : Block α)) blk = { blk with lines := l.foldl f blk.lines } := by
-  intro l
-  induction l with
-  | nil => intro blk; rfl
-  | cons x xs ih => intro blk; simp only [List.foldl_cons]; rw [ih]
-
-/-- one cell of a table row, as in the hand model's `tableRow` -/
-def btCell (row : List (List α)) (colWidths : List Int) (isHeader border : Bool) (chars : TableChars α) (col : Nat) : List α :=
-  let cellData := row.getD col []
-  let w := colWidths.getD col 0
-  if isHeader then
-    let hc := cellData.map cx.upper
-    if border then alignCenter cx hc w ++ chars.vert else alignLeft cx hc w
-  else
-    if border then [cx.sp] ++ alignLeft cx cellData (w - 1) ++ chars.vert
-    else alignLeft cx cellData w
-
-theorem tableRow_eq (row : List (List α)) (colWidths : List Int) (isHeader border : Bool) (chars : TableChars α) :
-    tableRow cx row colWidths isHeader border chars =
-      (List.range colWidths.length).foldl (fun line col => line ++ btCell cx row colWidths isHeader border chars col)
-        (if border then chars.vert else []) := rfl
-
-/-- one step of the row loop, as in the hand model's `buildTable` -/
-def btStep (data : List (List (List α))) (colWidths : List Int) (width : Int) (header border : Bool) (chars : TableChars α)
-    (acc : List (List α)) (rowIdx : Nat) : List (List α) :=
-  let horzBar : List α :=
-    if border then colWidths.foldl (fun bar w => bar ++ gRepeat chars.horz w ++ chars.corner) chars.corner else []
-  let breakBar : List α := if header ∧ !border then gRepeat chars.horz width else []
-  let row := data.getD rowIdx []
-  let isHeader := rowIdx == 0 && header
-  let acc := acc ++ [tableRow cx row colWidths isHeader border chars]
-  if isHeader then
-    if border then (if data.length > 1 then acc ++ [horzBar] else acc)
-    else acc ++ [breakBar]
-  else acc
-
-theorem buildTable_eq (data : List (List (List α))) (colWidths : List Int) (width : Int) (header border : Bool)
-    (chars : TableChars α) :
-    buildTable cx data colWidths width header border chars =
-      (let horzBar : List α :=
-        if border then colWidths.foldl (fun bar w => bar ++ gRepeat chars.horz w ++ chars.corner) chars.corner else []
-       let body := (List.range data.length).foldl (btStep cx data colWidths width header border chars)
-         (if border then [horzBar] else [])
-       if border then body ++ [horzBar] else body) := rfl
-
-theorem buildTable_regenerated (h : Gen.Code.buildTable_extracted = true) (data : List (List (List α)))
-    (colWidths : List Int) (width : Int) (lineSep : List α) (header border : Bool) (chars : TableChars α) :
-    Gen.Code.buildTable cx data colWidths width lineSep header border chars =
-      pure ({ lines := buildTable cx data colWidths width header border chars, sep := lineSep, trailing := false } : Block α) := by
-  first
-    | exact absurd h (by decide)
-    | (unfold Gen.Code.buildTable
-       simp only [blockAppend_regenerated cx (by decide), alignLineLeft_regenerated cx (by decide),
-         alignLineCenter_regenerated cx (by decide)]
-       go_norm
-       -- the horizontal bar
-       have hHorz : ∀ (bar0 : List α),
-           Go.forRangeM colWidths (fun (v_i : Int) (_x : Int) (v_horzBar : List α) =>
-             Go.whileM ((colWidths.getD v_i.toNat 0).toNat + 1)
-               (fun (s : List α × Int) => Go.idx colWidths v_i >>= fun t1 => pure (decide (s.2 < t1)))
-               (fun (s : List α × Int) => pure (s.1 ++ chars.horz, s.2 + 1)) (v_horzBar, 0) >>= fun t2 =>
-                 (pure (t2.1 ++ chars.corner) : R _)) bar0 =
-           pure (colWidths.foldl (fun bar w => bar ++ gRepeat chars.horz w ++ chars.corner) bar0) := by
-         intro bar0
-         rw [forRangeM_fold colWidths (fun bar k => bar ++ gRepeat chars.horz (colWidths.getD k 0) ++ chars.corner)]
-         · have := foldl_range_getD (fun (bar : List α) (w : Int) => bar ++ gRepeat chars.horz w ++ chars.corner) 0 colWidths [] bar0
-           simp only [List.length_nil, List.nil_append] at this
-           rw [List.range_eq_range', this]
-         · intro k x s hk
-           have hget : colWidths.getD k 0 = colWidths[k] := by simp [List.getD_eq_getElem?_getD, hk]
-           simp only [Int.toNat_natCast, hget, idx_nat colWidths k hk, pure_bind]
-           rw [while_count2_zero colWidths[k] (fun bar _ => bar ++ chars.horz) _ _ (fun s k => rfl) (fun s k _ => rfl) _ _ (Nat.le_refl _)]
-           rw [foldl_const_append]
-           simp [gRepeat_eq, List.append_assoc]
-       have hBreak : Go.whileM (width.toNat + 1) (fun (s : List α × Int) => (pure (decide (s.2 < width)) : R Bool))
-             (fun (s : List α × Int) => (pure (s.1 ++ chars.horz, s.2 + 1) : R _)) ([], 0) =
-           pure (gRepeat chars.horz width, (width.toNat : Int)) := by
-         rw [while_count2_zero width (fun bar _ => bar ++ chars.horz) _ _ (fun s k => rfl) (fun s k _ => rfl) _ _ (Nat.le_refl _)]
-         rw [foldl_const_append]
-         simp [gRepeat_eq]
-       simp only [hHorz, hBreak, pure_bind, ite_pure]
-       -- the rows
-       rw [forRangeM_fold data (fun (b : Block α) (k : Nat) =>
-         ({ b with lines := btStep cx data colWidths width header border chars b.lines k } : Block α))]
-       · rw [foldl_block_lines]
-         simp only [pure_bind]
-         rw [buildTable_eq]
-         cases border <;> simp [Block.new, Block.append]
-       · intro k x blk hk
-         have hgetr : data.getD k [] = data[k] := by simp [List.getD_eq_getElem?_getD, hk]
-         rw [while_count3_zero (colWidths.length : Int)
-           (fun (p : List α × List α) (col : Nat) =>
-             (btCell cx data[k] colWidths (k == 0 && header) border chars col,
-              p.2 ++ btCell cx data[k] colWidths (k == 0 && header) border chars col))
-           _ _ (fun a b c => rfl) ?hb _ _ _ (by simp)]
-         case hb =>
-           intro a b col hcol
-           have hcol' : col < colWidths.length := by omega
-           have hgetc : colWidths.getD col 0 = colWidths[col] := by simp [List.getD_eq_getElem?_getD, hcol']
-           have hrow : (if (col : Int) < ((data[k]).length : Int) then Go.idx data[k] (col : Int) else pure []) =
-               (pure ((data[k]).getD col []) : R (List α)) := by
-             by_cases hc2 : col < (data[k]).length
-             · rw [if_pos (by omega), idx_nat _ _ hc2]; simp [List.getD_eq_getElem?_getD, hc2]
-             · rw [if_neg (by omega)]; simp [List.getD_eq_getElem?_getD, hc2]
-           simp only [idx_nat data k hk, idx_nat colWidths col hcol', pure_bind, bind_pure, hrow, ite_pure]
-           have hk0 : ((k : Int) = 0 ∧ header = true) ↔ ((k == 0 && header) = true) := by simp
-           simp only [btCell, hgetc, hk0]
-         simp only [pure_bind, Int.toNat_natCast]
-         rw [foldl_pair_snd (btCell cx data[k] colWidths (k == 0 && header) border chars)
-           (fun b c => b ++ btCell cx data[k] colWidths (k == 0 && header) border chars c)]
-         have hk0 : ((k : Int) = 0 ∧ header = true) ↔ ((k == 0 && header) = true) := by simp
-         have hdl : ((data.length : Int) > 1) ↔ (data.length > 1) := by omega
-         simp only [btStep, tableRow_eq, hgetr, hk0, hdl, Block.append, Block.new]
-         cases border <;> cases header <;> by_cases hkz : k = 0 <;> simp [hkz]
-         all_goals (split <;> rfl))
-
-/-! ### MakeTable -/
-
-/-- `forRange_fold` under an invariant of the state -/
-theorem forRange_fold_inv {β σ : Type} (P : σ → Prop) (data : List β) (step : σ → Nat → σ) (body : Int → β → σ → R σ)
-    (hP : ∀ (k : Nat) (s : σ), k < data.length → P s → P (step s k))
-    (hbody : ∀ (k : Nat) (x : β) (s : σ), k < data.length → P s → body (k : Int) x s = pure (step s k)) :
-    ∀ (xs pre : List β) (s : σ), data = pre ++ xs → P s →
-      Go.forRangeAux body (pre.length : Int) xs s = pure ((List.range' pre.length xs.length).foldl step s) := by
-  intro xs
-  induction xs with
-  | nil => intro pre s _ _; rfl
-  | cons x xs ih =>
-    intro pre s hc hs
-    have hk : pre.length < data.length := by rw [hc]; simp
-    rw [Go.forRangeAux, hbody pre.length x s hk hs, pure_bind]
-    have := ih (pre ++ [x]) (step s pre.length) (by simp [hc]) (hP _ _ hk hs)
-    simp only [List.length_append, List.length_cons, List.length_nil, Nat.zero_add, Int.natCast_add, Int.cast_ofNat_Int] at this
-    rw [this]
-    simp [List.range'_succ]
-
-theorem forRangeM_fold_inv {β σ : Type} (P : σ → Prop) (data : List β) (step : σ → Nat → σ) (body : Int → β → σ → R σ)
-    (hP : ∀ (k : Nat) (s : σ), k < data.length → P s → P (step s k))
-    (hbody : ∀ (k : Nat) (x : β) (s : σ), k < data.length → P s → body (k : Int) x s = pure (step s k)) (s : σ) (hs : P s) :
-    Go.forRangeM data body s = pure ((List.range data.length).foldl step s) := by
-  have := forRange_fold_inv P data step body hP hbody data [] s rfl hs
-  simpa [Go.forRangeM, List.range_eq_range'] using this
-
-/-- `while_count2` under an invariant of the state -/
-theorem while_count2_inv {σ : Type} (P : σ → Prop) (N : Int) (step : σ → Nat → σ) (cond : σ × Int → R Bool)
-    (body : σ × Int → R (σ × Int))
-    (hP : ∀ (s : σ) (k : Nat), (k : Int) < N → P s → P (step s k))
-    (hc : ∀ (s : σ) (k : Nat), cond (s, (k : Int)) = pure (decide ((k : Int) < N)))
-    (hb : ∀ (s : σ) (k : Nat), (k : Int) < N → P s → body (s, (k : Int)) = pure (step s k, (k : Int) + 1)) :
-    ∀ (fuel k : Nat) (s : σ), P s → (k : Int) ≤ max N 0 → N.toNat + 1 ≤ fuel + k →
-      Go.whileM fuel cond body (s, (k : Int)) =
-        pure ((List.range' k (N.toNat - k)).foldl step s, ((max N.toNat k : Nat) : Int)) := by
-  intro fuel
-  induction fuel with
-  | zero => intro k s _ h1 h2; omega
-  | succ f ih =>
-    intro k s hs h1 h2
-    unfold Go.whileM
-    rw [hc]
-    simp only [pure_bind]
-    by_cases hlt : (k : Int) < N
-    · simp only [hlt, decide_true, if_true, hb s k hlt hs, pure_bind]
-      have := ih (k + 1) (step s k) (hP s k hlt hs) (by omega) (by omega)
-      simp only [Int.natCast_add, Int.cast_ofNat_Int] at this
-      rw [this]
-      have e : N.toNat - k = (N.toNat - (k + 1)) + 1 := by omega
-      rw [e, List.range'_succ, List.foldl_cons]
-      congr 2
-      omega
-    · have e : N.toNat - k = 0 := by omega
-      simp only [hlt, decide_false, Bool.false_eq_true, if_false, e, List.range'_zero, List.foldl_nil]
-      congr 2
-      omega
-
-theorem while_count2_inv_zero {σ : Type} (P : σ → Prop) (N : Int) (step : σ → Nat → σ) (cond : σ × Int → R Bool)
-    (body : σ × Int → R (σ × Int))
-    (hP : ∀ (s : σ) (k : Nat), (k : Int) < N → P s → P (step s k))
-    (hc : ∀ (s : σ) (k : Nat), cond (s, (k : Int)) = pure (decide ((k : Int) < N)))
-    (hb : ∀ (s : σ) (k : Nat), (k : Int) < N → P s → body (s, (k : Int)) = pure (step s k, (k : Int) + 1))
-    (fuel : Nat) (s : σ) (hs : P s) (hf : N.toNat + 1 ≤ fuel) :
-    Go.whileM fuel cond body (s, 0) = pure ((List.range N.toNat).foldl step s, (N.toNat : Int)) := by
-  have := while_count2_inv P N step cond body hP hc hb fuel 0 s hs (by omega) (by omega)
-  simpa [List.range_eq_range'] using this
-
-/-- a fold that updates position `j` at step `j` -/
-theorem foldl_set_range {β : Type} (g : Nat → β → β) (d : β) (c0 : List β) : ∀ (k : Nat),
-    ((List.range k).foldl (fun c j => c.set j (g j (c.getD j d))) c0).length = c0.length ∧
-    ∀ (i : Nat), ((List.range k).foldl (fun c j => c.set j (g j (c.getD j d))) c0).getD i d =
-      if i < k ∧ i < c0.length then g i (c0.getD i d) else c0.getD i d := by
-  intro k
-  induction k with
-  | zero => simp
-  | succ k ih =>
-    rw [List.range_succ, List.foldl_append]
-    simp only [List.foldl_cons, List.foldl_nil, List.length_set]
-    generalize (List.range k).foldl (fun c j => c.set j (g j (c.getD j d))) c0 = F at ih ⊢
-    refine ⟨ih.1, ?_⟩
-    intro i
-    rw [List.getD_eq_getElem?_getD, List.getElem?_set]
-    by_cases hik : k = i
-    · subst hik
-      rw [if_pos rfl]
-      by_cases hl : k < c0.length
-      · rw [if_pos (by rw [ih.1]; exact hl), Option.getD_some, ih.2 k]
-        have h1 : ¬ (k < k ∧ k < c0.length) := by omega
-        have h2 : (k < k + 1 ∧ k < c0.length) := by omega
-        rw [if_neg h1, if_pos h2]
-      · rw [if_neg (by rw [ih.1]; exact hl), Option.getD_none]
-        have h2 : ¬ (k < k + 1 ∧ k < c0.length) := by omega
-        rw [if_neg h2, List.getD_eq_getElem?_getD, List.getElem?_eq_none (by omega)]
-        rfl
-    · rw [if_neg hik, ← List.getD_eq_getElem?_getD, ih.2 i]
-      by_cases hi : i < k
-      · have h1 : i < k + 1 := by omega
-        simp only [hi, h1]
-      · have h1 : ¬ i < k + 1 := by omega
-        simp only [hi, h1]
-
-theorem foldl_max_cast {β : Type} : ∀ (l : List (List β)) (m : Nat),
-    l.foldl (fun (m : Int) r => if (r.length : Int) > m then (r.length : Int) else m) (m : Int) =
-      ((l.foldl (fun m r => max m r.length) m : Nat) : Int) := by
-  intro l
-  induction l with
-  | nil => intro m; rfl
-  | cons x xs ih =>
-    intro m
-    simp only [List.foldl_cons]
-    by_cases h : (x.length : Int) > (m : Int)
-    · rw [if_pos h, ih x.length]
-      congr 2
-      omega
-    · rw [if_neg h]
-      have : max m x.length = m := by omega
-      rw [this]
-      exact ih m
-
-theorem getD_set_self {β : Type} (c : List β) (i : Nat) (v d : β) (h : i < c.length) : (c.set i v).getD i d = v := by
-  simp [List.getD_eq_getElem?_getD, h]
-
-/-- a fold that keeps updating one fixed position -/
-theorem foldl_set_fixed {β γ : Type} (f : β → γ → β) (d : β) (col : Nat) : ∀ (l : List γ) (c : List β), col < c.length →
-    l.foldl (fun c' r => c'.set col (f (c'.getD col d) r)) c = c.set col (l.foldl f (c.getD col d)) := by
-  intro l
-  induction l with
-  | nil => intro c h; simp [List.getD_eq_getElem?_getD, h]
-  | cons x xs ih =>
-    intro c h
-    simp only [List.foldl_cons]
-    rw [ih _ (by simpa using h), getD_set_self _ _ _ _ h, List.set_set]
-
-theorem foldl_set_range_eq_map {β : Type} (g : Nat → β → β) (d : β) (c0 : List β) :
-    (List.range c0.length).foldl (fun c j => c.set j (g j (c.getD j d))) c0 =
-      (List.range c0.length).map (fun j => g j (c0.getD j d)) := by
-  have hh := foldl_set_range g d c0 c0.length
-  apply List.ext_getElem
-  · rw [hh.1]; simp
-  · intro i h1 h2
-    have h3 : i < c0.length := by rw [hh.1] at h1; exact h1
-    have := hh.2 i
-    rw [List.getD_eq_getElem?_getD, List.getElem?_eq_getElem h1, Option.getD_some] at this
-    rw [this]
-    simp [h3]
-
-/-- the padding loop: position `i` is updated at step `i` and the new value is accumulated -/
-theorem foldl_pair_set {β γ : Type} (g : Nat → β → β) (hacc : γ → β → γ) (d : β) (c0 : List β) (m0 : γ) : ∀ (k : Nat), k ≤ c0.length →
-    (List.range k).foldl (fun (p : List β × γ) i => (p.1.set i (g i (p.1.getD i d)), hacc p.2 (g i (p.1.getD i d)))) (c0, m0) =
-      ((List.range k).foldl (fun c j => c.set j (g j (c.getD j d))) c0,
-       (List.range k).foldl (fun m i => hacc m (g i (c0.getD i d))) m0) := by
-  intro k
-  induction k with
-  | zero => intro _; rfl
-  | succ k ih =>
-    intro hk
-    rw [List.range_succ, List.foldl_append, List.foldl_append, List.foldl_append, ih (by omega)]
-    simp only [List.foldl_cons, List.foldl_nil]
-    have := (foldl_set_range g d c0 k).2 k
-    have h1 : ¬ (k < k ∧ k < c0.length) := by omega
-    rw [if_neg h1] at this
-    rw [this]
-
-/-- the pieces of the hand model's `makeTable`, named -/
-def mtContentW (data : List (List (List α))) (n : Nat) : List Int :=
-  (List.range n).map fun col =>
-    data.foldl (fun m row => let k : Int := gLen cx (row.getD col []); if k ≥ m then k else m) 0
-def mtPadded (border : Bool) (n : Nat) (contentW : List Int) : List Int :=
-  (List.range n).map fun i => contentW.getD i 0 + (if border then 2 else if i + 1 < n then 2 else 0)
-def mtMinW (border : Bool) (horzLen : Int) (padded : List Int) : Int :=
-  padded.foldl (fun s w => s + w + (if border then horzLen else 0)) (if border then horzLen else 0)
-def mtColWidths (border : Bool) (n : Nat) (padded : List Int) (spaceToAdd : Int) : List Int :=
-  let numToSpace : Int := if !border ∧ n > 1 then (n : Int) - 1 else n
-  let per := spaceToAdd / numToSpace
-  let rem := spaceToAdd % numToSpace
-  (List.range n).map fun i =>
-    let w := padded.getD i 0
-    if (i : Int) < numToSpace then w + per + (if (i : Int) < rem then 1 else 0) else w
-
-theorem makeTable_eq (data : List (List (List α))) (width : Int) (header border : Bool) (charSet : List α) :
-    makeTable cx data width header border charSet =
-      if data.isEmpty then []
-      else
-        let n := data.foldl (fun m r => max m r.length) 0
-        if n == 0 then []
-        else
-          let chars := parseTableCharSet cx charSet
-          let padded := mtPadded border n (mtContentW cx data n)
-          let mw := mtMinW border (gLen cx chars.horz) padded
-          if width - mw > 0 then buildTable cx data (mtColWidths border n padded (width - mw)) width header border chars
-          else buildTable cx data padded mw header border chars := rfl
-
-theorem makeTable_regenerated (h : Gen.Code.makeTable_extracted = true) (data : List (List (List α))) (width : Int)
-    (lineSep : List α) (header border : Bool) (charSet : List α) :
-    Gen.Code.makeTable cx data width lineSep header border charSet =
-      pure ({ lines := makeTable cx data width header border charSet, sep := lineSep, trailing := false } : Block α) := by
-  first
-    | exact absurd h (by decide)
-    | (rw [makeTable_eq]
-       unfold Gen.Code.makeTable
-       simp only [parseTableCharSet_regenerated cx (by decide), buildTable_regenerated cx (by decide)]
-       go_norm
-       by_cases hd : data = []
-       · simp [hd, Block.new]
-       · simp only [hd, if_false]
-         -- colCount
-         rw [forRangeM_fold data (fun (cc : Int) (k : Nat) =>
-           if (((data.getD k []).length : Nat) : Int) > cc then (((data.getD k []).length : Nat) : Int) else cc)]
-         · have hcc := foldl_range_getD (fun (m : Int) (r : List (List α)) => if (r.length : Int) > m then (r.length : Int) else m)
-             [] data [] 0
-           have hmc := foldl_max_cast data 0
-           simp only [List.length_nil, List.nil_append] at hcc
-           simp only [Int.natCast_zero] at hmc
-           rw [List.range_eq_range', hcc, hmc]
-           simp only [pure_bind]
-           generalize hn : data.foldl (fun m r => max m r.length) 0 = n
-           by_cases hn0 : n = 0
-           · simp [hn0, Block.new]
-           · have hn0' : ¬ ((n : Int) = 0) := by omega
-             simp only [hn0', if_false, beq_iff_eq, hn0]
-             have hmk : ∀ m : Nat, Go.makeSlice (m : Int) (0 : Int) = pure (List.replicate m (0 : Int)) := by
-               intro m; unfold Go.makeSlice; rw [if_neg (by omega)]; simp
-             simp only [hmk, pure_bind]
-             -- content widths
-             rw [while_count2_inv_zero (fun (c : List Int) => c.length = n) (n : Int)
-               (fun (c : List Int) (col : Nat) => c.set col
-                 (data.foldl (fun m row => let k : Int := gLen cx (row.getD col []); if k ≥ m then k else m) 0))
-               _ _ (fun s k _ hs => by simpa using hs) (fun s k => rfl) ?hb _ _ (by simp) (by simp)]
-             case hb =>
-               intro c col hcol hc
-               have hcol' : col < c.length := by omega
-               simp only []
-               have hss : Go.sliceSet c (col : Int) (0 : Int) = pure (c.set col 0) := by
-                 unfold Go.sliceSet; rw [if_pos (by omega)]; simp
-               rw [hss, pure_bind]
-               rw [forRangeM_fold_inv (fun (c' : List Int) => c'.length = n) data
-                 (fun (c' : List Int) (row : Nat) => c'.set col
-                   ((fun (m : Int) (r : List (List α)) => let k : Int := gLen cx (r.getD col []); if k ≥ m then k else m)
-                     (c'.getD col 0) (data.getD row [])))
-                 _ (fun k s _ hs => by simpa using hs) ?hb2 _ (by simpa using hc)]
-               case hb2 =>
-                 intro row x c' hrow hc'
-                 have hget : data.getD row [] = data[row] := by simp [List.getD_eq_getElem?_getD, hrow]
-                 have hcol2 : col < c'.length := by omega
-                 have hrowv : (if (col : Int) < ((data[row]).length : Int) then Go.idx data[row] (col : Int) else pure []) =
-                     (pure ((data[row]).getD col []) : R (List α)) := by
-                   by_cases hc2 : col < (data[row]).length
-                   · rw [if_pos (by omega), idx_nat _ _ hc2]; simp [List.getD_eq_getElem?_getD, hc2]
-                   · rw [if_neg (by omega)]; simp [List.getD_eq_getElem?_getD, hc2]
-                 have hss2 : ∀ v : Int, Go.sliceSet c' (col : Int) v = pure (c'.set col v) := by
-                   intro v; unfold Go.sliceSet; rw [if_pos (by omega)]; simp
-                 have hgc : c'.getD col 0 = c'[col] := by simp [List.getD_eq_getElem?_getD, hcol2]
-                 simp only [idx_nat data row hrow, idx_nat c' col hcol2, pure_bind, bind_pure, hrowv, hss2, hget, hgc]
-                 split
-                 · rfl
-                 · simp
-               simp only [pure_bind]
-               rw [foldl_set_fixed (fun (m : Int) (row : Nat) =>
-                   (fun (m : Int) (r : List (List α)) => let k : Int := gLen cx (r.getD col []); if k ≥ m then k else m) m
-                     (data.getD row [])) 0 col _ _ (by simpa using hcol'), getD_set_self _ _ _ _ hcol', List.set_set]
-               have hfr := foldl_range_getD
-                 (fun (m : Int) (r : List (List α)) => let k : Int := gLen cx (r.getD col []); if k ≥ m then k else m)
-                 [] data [] 0
-               simp only [List.length_nil, List.nil_append] at hfr
-               rw [List.range_eq_range', hfr]
-             simp only [pure_bind, Int.toNat_natCast]
-             have hcw : (List.range n).foldl (fun (c : List Int) (col : Nat) => c.set col
-                 (data.foldl (fun m row => let k : Int := gLen cx (row.getD col []); if k ≥ m then k else m) 0))
-                 (List.replicate n 0) = mtContentW cx data n := by
-               have := foldl_set_range_eq_map (fun (j : Nat) (_ : Int) =>
-                 data.foldl (fun m row => let k : Int := gLen cx (row.getD j []); if k ≥ m then k else m) 0) 0 (List.replicate n 0)
-               simp only [List.length_replicate] at this
-               exact this
-             rw [hcw]
-             have hcwl : (mtContentW cx data n).length = n := by simp [mtContentW]
-             generalize mtContentW cx data n = cw at hcwl ⊢
-             have hcopy : ∀ l : List Int, Go.copySlice (List.replicate l.length (0 : Int)) l = l := by
-               intro l; simp [Go.copySlice]
-             generalize hhl : ((gLen cx (parseTableCharSet cx charSet).horz : Nat) : Int) = hl
-             simp only [hcopy, ite_pure, pure_bind]
-             -- padding and minimal width
-             rw [forRangeM_fold_inv (fun (p : List Int × Int) => p.1.length = n) cw
-               (fun (p : List Int × Int) (i : Nat) =>
-                 (p.1.set i ((fun (i : Nat) (w : Int) => w + (if border then 2 else if i + 1 < n then 2 else 0)) i (p.1.getD i 0)),
-                  (fun (m v : Int) => m + v + (if border then hl else 0)) p.2
-                    ((fun (i : Nat) (w : Int) => w + (if border then 2 else if i + 1 < n then 2 else 0)) i (p.1.getD i 0))))
-               _ (fun k s _ hs => by simpa using hs) ?hb _ (by simpa using hcwl)]
-             case hb =>
-               intro i x p hi hp
-               have hi' : i < p.1.length := by omega
-               have hss : ∀ v : Int, Go.sliceSet p.1 (i : Int) v = pure (p.1.set i v) := by
-                 intro v; unfold Go.sliceSet; rw [if_pos (by omega)]; simp
-               have hgi : p.1.getD i 0 = (p.1)[i] := by simp [List.getD_eq_getElem?_getD, hi']
-               have hi2 : ∀ v : Int, Go.idx (p.1.set i v) (i : Int) = pure v := by
-                 intro v; rw [idx_nat _ _ (by simpa using hi')]; simp
-               have hc1 : ((i : Int) + 1 < (cw.length : Int)) ↔ (i + 1 < n) := by omega
-               simp only [idx_nat p.1 i hi', pure_bind, hss, hi2, hgi, ite_pure, hc1]
-               cases border <;> simp
-             rw [foldl_pair_set (fun (i : Nat) (w : Int) => w + (if border then 2 else if i + 1 < n then 2 else 0))
-               (fun (m v : Int) => m + v + (if border then hl else 0)) 0 cw (if border then hl else 0) cw.length (Nat.le_refl _),
-               foldl_set_range_eq_map (fun (i : Nat) (w : Int) => w + (if border then 2 else if i + 1 < n then 2 else 0))]
-             have hpad : (List.range cw.length).map (fun j =>
-                 (fun (i : Nat) (w : Int) => w + (if border then 2 else if i + 1 < n then 2 else 0)) j (cw.getD j 0)) =
-                 mtPadded border n cw := by rw [hcwl]; rfl
-             have hmw : (List.range cw.length).foldl (fun (m : Int) (i : Nat) =>
-                 (fun (m v : Int) => m + v + (if border then hl else 0)) m
-                   ((fun (i : Nat) (w : Int) => w + (if border then 2 else if i + 1 < n then 2 else 0)) i (cw.getD i 0)))
-                 (if border then hl else 0) = mtMinW border hl (mtPadded border n cw) := by
-               rw [hcwl]; simp only [mtMinW, mtPadded, List.foldl_map]
-             rw [hpad, hmw]
-             simp only [pure_bind]
-             have hpl : (mtPadded border n cw).length = n := by simp [mtPadded]
-             generalize mtPadded border n cw = padded at hpl ⊢
-             generalize mtMinW border hl padded = mw
-             have hcopy2 : Go.copySlice (List.replicate n (0 : Int)) padded = padded := by
-               rw [← hpl]; exact hcopy padded
-             simp only [hcopy2]
-             by_cases hsp : width - mw > 0
-             · simp only [hsp, if_true]
-               generalize hsp' : width - mw = sp at hsp ⊢
-               generalize hnts : (if border = false ∧ (n : Int) > 1 then (n : Int) - 1 else (n : Int)) = nts
-               have hnts1 : 1 ≤ nts ∧ nts ≤ (n : Int) := by
-                 rw [← hnts]; split <;> omega
-               have hdiv : Go.intDiv sp nts = pure (Int.tdiv sp nts) := by
-                 unfold Go.intDiv; rw [if_neg (by omega)]
-               have hmod : Go.intMod sp nts = pure (Int.tmod sp nts) := by
-                 unfold Go.intMod; rw [if_neg (by omega)]
-               have hst : Go.sliceTo padded nts = pure (padded.take nts.toNat) := by
-                 unfold Go.sliceTo; rw [if_pos (by omega)]
-               simp only [hdiv, hmod, hst, pure_bind, bind_assoc]
-               rw [forRangeM_fold_inv (fun (c : List Int) => c.length = n) (padded.take nts.toNat)
-                 (fun (c : List Int) (i : Nat) => c.set i
-                   ((fun (i : Nat) (w : Int) => w + Int.tdiv sp nts + (if (i : Int) < Int.tmod sp nts then 1 else 0)) i (c.getD i 0)))
-                 _ (fun k s _ hs => by simpa using hs) ?hb _ hpl]
-               case hb =>
-                 intro i x c hi hc
-                 have hi' : i < c.length := by
-                   rw [List.length_take] at hi; omega
-                 have hss : ∀ (l : List Int) (v : Int), l.length = n → Go.sliceSet l (i : Int) v = pure (l.set i v) := by
-                   intro l v hlen; unfold Go.sliceSet; rw [if_pos (by omega)]; simp
-                 have hgi : c.getD i 0 = c[i] := by simp [List.getD_eq_getElem?_getD, hi']
-                 have hi2 : ∀ v : Int, Go.idx (c.set i v) (i : Int) = pure v := by
-                   intro v; rw [idx_nat _ _ (by simpa using hi')]; simp
-                 simp only [idx_nat c i hi', pure_bind, hss c _ hc, hi2, hgi]
-                 split
-                 · rw [hss _ _ (by simpa using hc)]
-                   simp [List.set_set]
-                 · simp
-               simp only [pure_bind]
-               have hfin : (List.range (padded.take nts.toNat).length).foldl
-                   (fun (c : List Int) (i : Nat) => c.set i
-                     ((fun (i : Nat) (w : Int) => w + Int.tdiv sp nts + (if (i : Int) < Int.tmod sp nts then 1 else 0)) i (c.getD i 0)))
-                   padded = mtColWidths border n padded sp := by
-                 have hlt : (padded.take nts.toNat).length = nts.toNat := by rw [List.length_take]; omega
-                 rw [hlt]
-                 have hh := foldl_set_range
-                   (fun (i : Nat) (w : Int) => w + Int.tdiv sp nts + (if (i : Int) < Int.tmod sp nts then 1 else 0)) 0 padded nts.toNat
-                 have hnts' : (if (!border) = true ∧ n > 1 then (n : Int) - 1 else (n : Int)) = nts := by
-                   rw [← hnts]
-                   have hc1 : (n > 1) ↔ ((n : Int) > 1) := by omega
-                   cases border <;> simp [hc1]
-                 apply List.ext_getElem
-                 · rw [hh.1]; simp [mtColWidths, hpl]
-                 · intro i h1 h2
-                   have hi : i < n := by rw [hh.1, hpl] at h1; exact h1
-                   have h3 := hh.2 i
-                   rw [List.getD_eq_getElem?_getD, List.getElem?_eq_getElem h1, Option.getD_some] at h3
-                   rw [h3]
-                   simp only [mtColWidths, hnts', List.getElem_map, List.getElem_range,
-                     Int.tdiv_eq_ediv_of_nonneg (Int.le_of_lt hsp), Int.tmod_eq_emod_of_nonneg (Int.le_of_lt hsp)]
-                   have hc : (i < nts.toNat ∧ i < padded.length) ↔ ((i : Int) < nts) := by omega
-                   simp only [hc]
-               rw [hfin]
-             · simp only [hsp, if_false, pure_bind]
-         · intro k x s hk
-           have hget : data.getD k [] = data[k] := by simp [List.getD_eq_getElem?_getD, hk]
-           simp only [idx_nat data k hk, pure_bind, hget, ite_pure])
-
-/-! ### InsertTableOpts and the delegating wrappers -/
-
-theorem map_range_getD {β : Type} (l : List β) (d : β) : (List.range l.length).map (fun j => l.getD j d) = l := by
-  apply List.ext_getElem
-  · simp
-  · intro i h1 h2
-    have : i < l.length := by simpa using h1
-    simp [List.getD_eq_getElem?_getD, this]
-
-/-- `len(table) > 0` counts bytes: needs every atom to have a positive byte length -/
-theorem editorInsertTableOpts_regenerated (h : Gen.Code.editorInsertTableOpts_extracted = true)
-    (hwf : cx.WF) (ed : Editor α) (pos : Int) (data : List (List (List α))) (width : Int) (o : Options α) :
-    Gen.Code.editorInsertTableOpts cx ed pos data width o = ed.insertTableOpts cx pos data width o := by
-  first
-    | exact absurd h (by decide)
-    | (unfold Gen.Code.editorInsertTableOpts Editor.insertTableOpts
-       simp only [optionsWithDefaults_regenerated cx (by decide), makeTable_regenerated cx (by decide),
-         blockJoin_regenerated cx (by decide), editorInsert_regenerated cx (by decide) hwf, pure_bind]
-       go_norm
-       have hmk : Go.makeSlice ((data.length : Nat) : Int) ([] : List (List α)) = pure (List.replicate data.length []) := by
-         unfold Go.makeSlice; rw [if_neg (by omega)]; simp
-       simp only [hmk, pure_bind]
-       rw [forRangeM_fold_inv (fun (c : List (List (List α))) => c.length = data.length) data
-         (fun (c : List (List (List α))) (k : Nat) => c.set k ((fun (k : Nat) (_ : List (List α)) => data.getD k []) k (c.getD k [])))
-         _ (fun k s _ hs => by simpa using hs) ?hb _ (by simp)]
-       case hb =>
-         intro k x c hk hc
-         have hget : data.getD k [] = data[k] := by simp [List.getD_eq_getElem?_getD, hk]
-         have hss : ∀ v, Go.sliceSet c (k : Int) v = pure (c.set k v) := by
-           intro v; unfold Go.sliceSet; rw [if_pos (by omega)]; simp
-         simp only [idx_nat data k hk, pure_bind, hss, hget]
-       have hrep := foldl_set_range_eq_map (fun (k : Nat) (_ : List (List α)) => data.getD k []) [] (List.replicate data.length [])
-       simp only [List.length_replicate] at hrep
-       rw [hrep, map_range_getD]
-       simp only [pure_bind, bind_pure]
-       have hbl : ∀ t : List α, ((byteLen cx t : Nat) : Int) > 0 ↔ ¬ t = [] := by
-         intro t
-         constructor
-         · intro h1 h2; subst h2; simp at h1
-         · intro h1
-           have := length_le_byteLen hwf.2 t
-           have : 0 < t.length := List.length_pos_iff.mpr h1
-           omega
-       simp only [hbl, List.isEmpty_iff]
-       split <;> split <;> simp_all)
-
-theorem editorWrap_regenerated (h : Gen.Code.editorWrap_extracted = true)
-    (hd : DefaultsOk cx) (hpos : ∀ a, 0 < cx.blen a) (ed : Editor α) (width : Int) :
-    Gen.Code.editorWrap cx ed width = ed.wrapOpts cx width ed.opts := by
-  first
-    | exact absurd h (by decide)
-    | (unfold Gen.Code.editorWrap
-       simp only [editorWrapOpts_regenerated cx (by decide) hd hpos, bind_pure])
-
-theorem editorIndent_regenerated (h : Gen.Code.editorIndent_extracted = true)
-    (hd : DefaultsOk cx) (hpos : ∀ a, 0 < cx.blen a) (ed : Editor α) (level : Int) :
-    Gen.Code.editorIndent cx ed level = ed.indentOpts cx level ed.opts := by
-  first
-    | exact absurd h (by decide)
-    | (unfold Gen.Code.editorIndent
-       simp only [editorIndentOpts_regenerated cx (by decide) hd hpos, bind_pure])
-
-theorem editorCollapseSpace_regenerated (h : Gen.Code.editorCollapseSpace_extracted = true) (ed : Editor α) :
-    Gen.Code.editorCollapseSpace cx ed = ed.collapseSpaceOpts cx ed.opts := by
-  first
-    | exact absurd h (by decide)
-    | (unfold Gen.Code.editorCollapseSpace
-       simp only [editorCollapseSpaceOpts_regenerated cx (by decide), bind_pure])
-
-theorem editorApply_regenerated (h : Gen.Code.editorApply_extracted = true) (ed : Editor α)
-    (op : Int → List α → R (List (List α))) :
-    Gen.Code.editorApply cx ed op = ed.applyOptsM cx (fun i l => op (i : Int) l) ed.opts := by
-  first
-    | exact absurd h (by decide)
-    | (unfold Gen.Code.editorApply
-       simp only [editorApplyOpts_regenerated cx (by decide), bind_pure])
-
-theorem editorApplyParagraphs_regenerated (h : Gen.Code.editorApplyParagraphs_extracted = true)
-    (hd : DefaultsOk cx) (hpos : ∀ a, 0 < cx.blen a) (ed : Editor α)
-    (op : Int → List α → List α → List α → R (List (List α))) :
-    Gen.Code.editorApplyParagraphs cx ed op = ed.applyParasM cx (fun i => op (i : Int)) ed.opts := by
-  first
-    | exact absurd h (by decide)
-    | (unfold Gen.Code.editorApplyParagraphs
-       simp only [editorApplyParagraphsOpts_regenerated cx (by decide) hd hpos, bind_pure])
-
-theorem editorInsertTable_regenerated (h : Gen.Code.editorInsertTable_extracted = true)
-    (hwf : cx.WF) (ed : Editor α) (pos : Int) (data : List (List (List α))) (width : Int) :
-    Gen.Code.editorInsertTable cx ed pos data width = ed.insertTableOpts cx pos data width ed.opts := by
-  first
-    | exact absurd h (by decide)
-    | (unfold Gen.Code.editorInsertTable
-       simp only [editorInsertTableOpts_regenerated cx (by decide) hwf, bind_pure])
-
-end RosedVerif.GenCodeEq
+import RosedVerif.Model.GenEq.Core
+import RosedVerif.Model.GenEq.Block
+import RosedVerif.Model.GenEq.Align
+import RosedVerif.Model.GenEq.Options
+import RosedVerif.Model.GenEq.Collapse
+import RosedVerif.Model.GenEq.Wrap
+import RosedVerif.Model.GenEq.Justify
+import RosedVerif.Model.GenEq.Combine
+import RosedVerif.Model.GenEq.Table
+import RosedVerif.Model.GenEq.Chars
+import RosedVerif.Model.GenEq.Lines
+import RosedVerif.Model.GenEq.Commit
+import RosedVerif.Model.GenEq.Edit
+import RosedVerif.Model.GenEq.Apply
+import RosedVerif.Model.GenEq.Paras
+import RosedVerif.Model.GenEq.WrapOpts
+import RosedVerif.Model.GenEq.IndentOpts
+import RosedVerif.Model.GenEq.InsertTable
